@@ -6,12 +6,16 @@ open CompErr
 set_option linter.unusedSimpArgs false
 
 theorem step_pinvE (s t : St) (f : Bool) (cfg : Cfg) (hfx : Fixed3 cfg) (hm : cfg.m = .asCoded)
-    (h4 : cfg.setReadOnlyReleasesOnClose = true ∨ NoSR s) (ia : PInvA s) (h : Step cfg f s t) (inv : PInvE s) :
-    PInvE t := by
-  unfold PInvE at *
+    (h4 : cfg.setReadOnlyReleasesOnClose = true ∨ NoSR s) (ia : PInvA s) (oe : OpenE s) (h : Step cfg f s t)
+    (inv : PInvE s) : PInvE t := by
+  unfold PInvE OpenE TokE at *
   obtain ⟨e1, e2, e3⟩ := inv
   have ia4 := ia.2.2.2.1
   clear ia
+  have c1 := b2n_le s.trOpen
+  have c2 := b2n_le s.ehTok
+  have c3 := b2n_le s.closeTok
+  have c4 := b2n_le s.tok
   obtain ⟨f1, f2, f3⟩ := hfx
   cases h with
   | startPut _ i hi =>
@@ -20,385 +24,385 @@ theorem step_pinvE (s t : St) (f : Bool) (cfg : Cfg) (hfx : Fixed3 cfg) (hm : cf
     have l1 := le_tot lgW _ _ _ hi
     have l2 := le_tot clAllW _ _ _ hi
     have l3 := le_tot clPreW _ _ _ hi
-    (try simp only [St.setDone, St.setBg, ↓reduceIte, Bool.false_eq_true, Bool.and_false, Bool.and_true, Bool.false_and, Bool.true_and]) <;> (repeat' split) <;> simp_all [tot_set_eq _ _ _ _ _ hi, tot_ackWs_srw', tot_ackWs_lgw, tot_ackWs_clall, tot_ackWs_clpre, b2n_true, b2n_false, clearW_idle, clearW_exited, clearW_parked, clearW_eq_exited, clearW_eq_parked, srW, lgW, clAllW, clPreW, St.bg, onOk, onErr, selNext, afterSetErr, srAllW, nextC] <;> (try omega) <;> (try grind)
+    (try simp only [St.setDone, St.setBg, ↓reduceIte, Bool.false_eq_true, Bool.and_false, Bool.and_true, Bool.false_and, Bool.true_and]) <;> (repeat' split) <;> simp_all [tot_set_eq _ _ _ _ _ hi, tot_ackWs_srw', tot_ackWs_lgw, tot_ackWs_clall, tot_ackWs_clpre, b2n_true, b2n_false, clearW_idle, clearW_exited, clearW_parked, clearW_eq_exited, clearW_eq_parked, srW, lgW, clAllW, clPreW, St.bg, onOk, onErr, selNext, afterSetErr, srAllW, nextC, roSets] <;> (try omega) <;> (try (cases hk : s.ehTok <;> cases hc0 : s.closed <;> simp_all [b2n_true, b2n_false] <;> omega)) <;> (try grind)
   | startWrite _ i hi =>
     clear h4
     have l0 := le_tot srW _ _ _ hi
     have l1 := le_tot lgW _ _ _ hi
     have l2 := le_tot clAllW _ _ _ hi
     have l3 := le_tot clPreW _ _ _ hi
-    (try simp only [St.setDone, St.setBg, ↓reduceIte, Bool.false_eq_true, Bool.and_false, Bool.and_true, Bool.false_and, Bool.true_and]) <;> (repeat' split) <;> simp_all [tot_set_eq _ _ _ _ _ hi, tot_ackWs_srw', tot_ackWs_lgw, tot_ackWs_clall, tot_ackWs_clpre, b2n_true, b2n_false, clearW_idle, clearW_exited, clearW_parked, clearW_eq_exited, clearW_eq_parked, srW, lgW, clAllW, clPreW, St.bg, onOk, onErr, selNext, afterSetErr, srAllW, nextC] <;> (try omega) <;> (try grind)
+    (try simp only [St.setDone, St.setBg, ↓reduceIte, Bool.false_eq_true, Bool.and_false, Bool.and_true, Bool.false_and, Bool.true_and]) <;> (repeat' split) <;> simp_all [tot_set_eq _ _ _ _ _ hi, tot_ackWs_srw', tot_ackWs_lgw, tot_ackWs_clall, tot_ackWs_clpre, b2n_true, b2n_false, clearW_idle, clearW_exited, clearW_parked, clearW_eq_exited, clearW_eq_parked, srW, lgW, clAllW, clPreW, St.bg, onOk, onErr, selNext, afterSetErr, srAllW, nextC, roSets] <;> (try omega) <;> (try (cases hk : s.ehTok <;> cases hc0 : s.closed <;> simp_all [b2n_true, b2n_false] <;> omega)) <;> (try grind)
   | startOtx _ i hi =>
     clear h4
     have l0 := le_tot srW _ _ _ hi
     have l1 := le_tot lgW _ _ _ hi
     have l2 := le_tot clAllW _ _ _ hi
     have l3 := le_tot clPreW _ _ _ hi
-    (try simp only [St.setDone, St.setBg, ↓reduceIte, Bool.false_eq_true, Bool.and_false, Bool.and_true, Bool.false_and, Bool.true_and]) <;> (repeat' split) <;> simp_all [tot_set_eq _ _ _ _ _ hi, tot_ackWs_srw', tot_ackWs_lgw, tot_ackWs_clall, tot_ackWs_clpre, b2n_true, b2n_false, clearW_idle, clearW_exited, clearW_parked, clearW_eq_exited, clearW_eq_parked, srW, lgW, clAllW, clPreW, St.bg, onOk, onErr, selNext, afterSetErr, srAllW, nextC] <;> (try omega) <;> (try grind)
+    (try simp only [St.setDone, St.setBg, ↓reduceIte, Bool.false_eq_true, Bool.and_false, Bool.and_true, Bool.false_and, Bool.true_and]) <;> (repeat' split) <;> simp_all [tot_set_eq _ _ _ _ _ hi, tot_ackWs_srw', tot_ackWs_lgw, tot_ackWs_clall, tot_ackWs_clpre, b2n_true, b2n_false, clearW_idle, clearW_exited, clearW_parked, clearW_eq_exited, clearW_eq_parked, srW, lgW, clAllW, clPreW, St.bg, onOk, onErr, selNext, afterSetErr, srAllW, nextC, roSets] <;> (try omega) <;> (try (cases hk : s.ehTok <;> cases hc0 : s.closed <;> simp_all [b2n_true, b2n_false] <;> omega)) <;> (try grind)
   | startCommit _ i hi hu =>
     clear h4
     have l0 := le_tot srW _ _ _ hi
     have l1 := le_tot lgW _ _ _ hi
     have l2 := le_tot clAllW _ _ _ hi
     have l3 := le_tot clPreW _ _ _ hi
-    (try simp only [St.setDone, St.setBg, ↓reduceIte, Bool.false_eq_true, Bool.and_false, Bool.and_true, Bool.false_and, Bool.true_and]) <;> (repeat' split) <;> simp_all [tot_set_eq _ _ _ _ _ hi, tot_ackWs_srw', tot_ackWs_lgw, tot_ackWs_clall, tot_ackWs_clpre, b2n_true, b2n_false, clearW_idle, clearW_exited, clearW_parked, clearW_eq_exited, clearW_eq_parked, srW, lgW, clAllW, clPreW, St.bg, onOk, onErr, selNext, afterSetErr, srAllW, nextC] <;> (try omega) <;> (try grind)
+    (try simp only [St.setDone, St.setBg, ↓reduceIte, Bool.false_eq_true, Bool.and_false, Bool.and_true, Bool.false_and, Bool.true_and]) <;> (repeat' split) <;> simp_all [tot_set_eq _ _ _ _ _ hi, tot_ackWs_srw', tot_ackWs_lgw, tot_ackWs_clall, tot_ackWs_clpre, b2n_true, b2n_false, clearW_idle, clearW_exited, clearW_parked, clearW_eq_exited, clearW_eq_parked, srW, lgW, clAllW, clPreW, St.bg, onOk, onErr, selNext, afterSetErr, srAllW, nextC, roSets] <;> (try omega) <;> (try (cases hk : s.ehTok <;> cases hc0 : s.closed <;> simp_all [b2n_true, b2n_false] <;> omega)) <;> (try grind)
   | startDiscard _ i hi hu =>
     clear h4
     have l0 := le_tot srW _ _ _ hi
     have l1 := le_tot lgW _ _ _ hi
     have l2 := le_tot clAllW _ _ _ hi
     have l3 := le_tot clPreW _ _ _ hi
-    (try simp only [St.setDone, St.setBg, ↓reduceIte, Bool.false_eq_true, Bool.and_false, Bool.and_true, Bool.false_and, Bool.true_and]) <;> (repeat' split) <;> simp_all [tot_set_eq _ _ _ _ _ hi, tot_ackWs_srw', tot_ackWs_lgw, tot_ackWs_clall, tot_ackWs_clpre, b2n_true, b2n_false, clearW_idle, clearW_exited, clearW_parked, clearW_eq_exited, clearW_eq_parked, srW, lgW, clAllW, clPreW, St.bg, onOk, onErr, selNext, afterSetErr, srAllW, nextC] <;> (try omega) <;> (try grind)
+    (try simp only [St.setDone, St.setBg, ↓reduceIte, Bool.false_eq_true, Bool.and_false, Bool.and_true, Bool.false_and, Bool.true_and]) <;> (repeat' split) <;> simp_all [tot_set_eq _ _ _ _ _ hi, tot_ackWs_srw', tot_ackWs_lgw, tot_ackWs_clall, tot_ackWs_clpre, b2n_true, b2n_false, clearW_idle, clearW_exited, clearW_parked, clearW_eq_exited, clearW_eq_parked, srW, lgW, clAllW, clPreW, St.bg, onOk, onErr, selNext, afterSetErr, srAllW, nextC, roSets] <;> (try omega) <;> (try (cases hk : s.ehTok <;> cases hc0 : s.closed <;> simp_all [b2n_true, b2n_false] <;> omega)) <;> (try grind)
   | startCR _ i hi =>
     clear h4
     have l0 := le_tot srW _ _ _ hi
     have l1 := le_tot lgW _ _ _ hi
     have l2 := le_tot clAllW _ _ _ hi
     have l3 := le_tot clPreW _ _ _ hi
-    (try simp only [St.setDone, St.setBg, ↓reduceIte, Bool.false_eq_true, Bool.and_false, Bool.and_true, Bool.false_and, Bool.true_and]) <;> (repeat' split) <;> simp_all [tot_set_eq _ _ _ _ _ hi, tot_ackWs_srw', tot_ackWs_lgw, tot_ackWs_clall, tot_ackWs_clpre, b2n_true, b2n_false, clearW_idle, clearW_exited, clearW_parked, clearW_eq_exited, clearW_eq_parked, srW, lgW, clAllW, clPreW, St.bg, onOk, onErr, selNext, afterSetErr, srAllW, nextC] <;> (try omega) <;> (try grind)
+    (try simp only [St.setDone, St.setBg, ↓reduceIte, Bool.false_eq_true, Bool.and_false, Bool.and_true, Bool.false_and, Bool.true_and]) <;> (repeat' split) <;> simp_all [tot_set_eq _ _ _ _ _ hi, tot_ackWs_srw', tot_ackWs_lgw, tot_ackWs_clall, tot_ackWs_clpre, b2n_true, b2n_false, clearW_idle, clearW_exited, clearW_parked, clearW_eq_exited, clearW_eq_parked, srW, lgW, clAllW, clPreW, St.bg, onOk, onErr, selNext, afterSetErr, srAllW, nextC, roSets] <;> (try omega) <;> (try (cases hk : s.ehTok <;> cases hc0 : s.closed <;> simp_all [b2n_true, b2n_false] <;> omega)) <;> (try grind)
   | startSR _ i hi ha =>
     clear h4
     have l0 := le_tot srW _ _ _ hi
     have l1 := le_tot lgW _ _ _ hi
     have l2 := le_tot clAllW _ _ _ hi
     have l3 := le_tot clPreW _ _ _ hi
-    (try simp only [St.setDone, St.setBg, ↓reduceIte, Bool.false_eq_true, Bool.and_false, Bool.and_true, Bool.false_and, Bool.true_and]) <;> (repeat' split) <;> simp_all [tot_set_eq _ _ _ _ _ hi, tot_ackWs_srw', tot_ackWs_lgw, tot_ackWs_clall, tot_ackWs_clpre, b2n_true, b2n_false, clearW_idle, clearW_exited, clearW_parked, clearW_eq_exited, clearW_eq_parked, srW, lgW, clAllW, clPreW, St.bg, onOk, onErr, selNext, afterSetErr, srAllW, nextC] <;> (try omega) <;> (try grind)
+    (try simp only [St.setDone, St.setBg, ↓reduceIte, Bool.false_eq_true, Bool.and_false, Bool.and_true, Bool.false_and, Bool.true_and]) <;> (repeat' split) <;> simp_all [tot_set_eq _ _ _ _ _ hi, tot_ackWs_srw', tot_ackWs_lgw, tot_ackWs_clall, tot_ackWs_clpre, b2n_true, b2n_false, clearW_idle, clearW_exited, clearW_parked, clearW_eq_exited, clearW_eq_parked, srW, lgW, clAllW, clPreW, St.bg, onOk, onErr, selNext, afterSetErr, srAllW, nextC, roSets] <;> (try omega) <;> (try (cases hk : s.ehTok <;> cases hc0 : s.closed <;> simp_all [b2n_true, b2n_false] <;> omega)) <;> (try grind)
   | startClose _ i hi =>
     clear h4
     have l0 := le_tot srW _ _ _ hi
     have l1 := le_tot lgW _ _ _ hi
     have l2 := le_tot clAllW _ _ _ hi
     have l3 := le_tot clPreW _ _ _ hi
-    (try simp only [St.setDone, St.setBg, ↓reduceIte, Bool.false_eq_true, Bool.and_false, Bool.and_true, Bool.false_and, Bool.true_and]) <;> (repeat' split) <;> simp_all [tot_set_eq _ _ _ _ _ hi, tot_ackWs_srw', tot_ackWs_lgw, tot_ackWs_clall, tot_ackWs_clpre, b2n_true, b2n_false, clearW_idle, clearW_exited, clearW_parked, clearW_eq_exited, clearW_eq_parked, srW, lgW, clAllW, clPreW, St.bg, onOk, onErr, selNext, afterSetErr, srAllW, nextC] <;> (try omega) <;> (try grind)
+    (try simp only [St.setDone, St.setBg, ↓reduceIte, Bool.false_eq_true, Bool.and_false, Bool.and_true, Bool.false_and, Bool.true_and]) <;> (repeat' split) <;> simp_all [tot_set_eq _ _ _ _ _ hi, tot_ackWs_srw', tot_ackWs_lgw, tot_ackWs_clall, tot_ackWs_clpre, b2n_true, b2n_false, clearW_idle, clearW_exited, clearW_parked, clearW_eq_exited, clearW_eq_parked, srW, lgW, clAllW, clPreW, St.bg, onOk, onErr, selNext, afterSetErr, srAllW, nextC, roSets] <;> (try omega) <;> (try (cases hk : s.ehTok <;> cases hc0 : s.closed <;> simp_all [b2n_true, b2n_false] <;> omega)) <;> (try grind)
   | selTok _ i p q hi hq ht =>
     clear h4
     have l0 := le_tot srW _ _ _ hi
     have l1 := le_tot lgW _ _ _ hi
     have l2 := le_tot clAllW _ _ _ hi
     have l3 := le_tot clPreW _ _ _ hi
-    cases p <;> simp only [selNext] at hq <;> (try contradiction) <;> cases hq <;> simp_all [tot_set_eq _ _ _ _ _ hi, tot_ackWs_srw', tot_ackWs_lgw, tot_ackWs_clall, tot_ackWs_clpre, b2n_true, b2n_false, clearW_idle, clearW_exited, clearW_parked, clearW_eq_exited, clearW_eq_parked, srW, lgW, clAllW, clPreW, St.bg, onOk, onErr, selNext, afterSetErr, srAllW, nextC] <;> (try omega) <;> (try grind)
+    cases p <;> simp only [selNext] at hq <;> (try contradiction) <;> cases hq <;> simp_all [tot_set_eq _ _ _ _ _ hi, tot_ackWs_srw', tot_ackWs_lgw, tot_ackWs_clall, tot_ackWs_clpre, b2n_true, b2n_false, clearW_idle, clearW_exited, clearW_parked, clearW_eq_exited, clearW_eq_parked, srW, lgW, clAllW, clPreW, St.bg, onOk, onErr, selNext, afterSetErr, srAllW, nextC, roSets] <;> (try omega) <;> (try (cases hk : s.ehTok <;> cases hc0 : s.closed <;> simp_all [b2n_true, b2n_false] <;> omega)) <;> (try grind)
   | selPerErr _ i p q hi hq he =>
     clear h4
     have l0 := le_tot srW _ _ _ hi
     have l1 := le_tot lgW _ _ _ hi
     have l2 := le_tot clAllW _ _ _ hi
     have l3 := le_tot clPreW _ _ _ hi
-    cases p <;> simp only [selNext] at hq <;> (try contradiction) <;> cases hq <;> simp_all [tot_set_eq _ _ _ _ _ hi, tot_ackWs_srw', tot_ackWs_lgw, tot_ackWs_clall, tot_ackWs_clpre, b2n_true, b2n_false, clearW_idle, clearW_exited, clearW_parked, clearW_eq_exited, clearW_eq_parked, srW, lgW, clAllW, clPreW, St.bg, onOk, onErr, selNext, afterSetErr, srAllW, nextC] <;> (try omega) <;> (try grind)
+    cases p <;> simp only [selNext] at hq <;> (try contradiction) <;> cases hq <;> simp_all [tot_set_eq _ _ _ _ _ hi, tot_ackWs_srw', tot_ackWs_lgw, tot_ackWs_clall, tot_ackWs_clpre, b2n_true, b2n_false, clearW_idle, clearW_exited, clearW_parked, clearW_eq_exited, clearW_eq_parked, srW, lgW, clAllW, clPreW, St.bg, onOk, onErr, selNext, afterSetErr, srAllW, nextC, roSets] <;> (try omega) <;> (try (cases hk : s.ehTok <;> cases hc0 : s.closed <;> simp_all [b2n_true, b2n_false] <;> omega)) <;> (try grind)
   | selClosed _ i p q hi hq hc =>
     clear h4
     have l0 := le_tot srW _ _ _ hi
     have l1 := le_tot lgW _ _ _ hi
     have l2 := le_tot clAllW _ _ _ hi
     have l3 := le_tot clPreW _ _ _ hi
-    cases p <;> simp only [selNext] at hq <;> (try contradiction) <;> cases hq <;> simp_all [tot_set_eq _ _ _ _ _ hi, tot_ackWs_srw', tot_ackWs_lgw, tot_ackWs_clall, tot_ackWs_clpre, b2n_true, b2n_false, clearW_idle, clearW_exited, clearW_parked, clearW_eq_exited, clearW_eq_parked, srW, lgW, clAllW, clPreW, St.bg, onOk, onErr, selNext, afterSetErr, srAllW, nextC] <;> (try omega) <;> (try grind)
+    cases p <;> simp only [selNext] at hq <;> (try contradiction) <;> cases hq <;> simp_all [tot_set_eq _ _ _ _ _ hi, tot_ackWs_srw', tot_ackWs_lgw, tot_ackWs_clall, tot_ackWs_clpre, b2n_true, b2n_false, clearW_idle, clearW_exited, clearW_parked, clearW_eq_exited, clearW_eq_parked, srW, lgW, clAllW, clPreW, St.bg, onOk, onErr, selNext, afterSetErr, srAllW, nextC, roSets] <;> (try omega) <;> (try (cases hk : s.ehTok <;> cases hc0 : s.closed <;> simp_all [b2n_true, b2n_false] <;> omega)) <;> (try grind)
   | putNoWait _ i hi =>
     clear h4
     have l0 := le_tot srW _ _ _ hi
     have l1 := le_tot lgW _ _ _ hi
     have l2 := le_tot clAllW _ _ _ hi
     have l3 := le_tot clPreW _ _ _ hi
-    (try simp only [St.setDone, St.setBg, ↓reduceIte, Bool.false_eq_true, Bool.and_false, Bool.and_true, Bool.false_and, Bool.true_and]) <;> (repeat' split) <;> simp_all [tot_set_eq _ _ _ _ _ hi, tot_ackWs_srw', tot_ackWs_lgw, tot_ackWs_clall, tot_ackWs_clpre, b2n_true, b2n_false, clearW_idle, clearW_exited, clearW_parked, clearW_eq_exited, clearW_eq_parked, srW, lgW, clAllW, clPreW, St.bg, onOk, onErr, selNext, afterSetErr, srAllW, nextC] <;> (try omega) <;> (try grind)
+    (try simp only [St.setDone, St.setBg, ↓reduceIte, Bool.false_eq_true, Bool.and_false, Bool.and_true, Bool.false_and, Bool.true_and]) <;> (repeat' split) <;> simp_all [tot_set_eq _ _ _ _ _ hi, tot_ackWs_srw', tot_ackWs_lgw, tot_ackWs_clall, tot_ackWs_clpre, b2n_true, b2n_false, clearW_idle, clearW_exited, clearW_parked, clearW_eq_exited, clearW_eq_parked, srW, lgW, clAllW, clPreW, St.bg, onOk, onErr, selNext, afterSetErr, srAllW, nextC, roSets] <;> (try omega) <;> (try (cases hk : s.ehTok <;> cases hc0 : s.closed <;> simp_all [b2n_true, b2n_false] <;> omega)) <;> (try grind)
   | putWait _ i b hi =>
     clear h4
     have l0 := le_tot srW _ _ _ hi
     have l1 := le_tot lgW _ _ _ hi
     have l2 := le_tot clAllW _ _ _ hi
     have l3 := le_tot clPreW _ _ _ hi
-    cases b <;> (try simp only [St.setDone, St.setBg, ↓reduceIte, Bool.false_eq_true, Bool.and_false, Bool.and_true, Bool.false_and, Bool.true_and]) <;> (repeat' split) <;> simp_all [tot_set_eq _ _ _ _ _ hi, tot_ackWs_srw', tot_ackWs_lgw, tot_ackWs_clall, tot_ackWs_clpre, b2n_true, b2n_false, clearW_idle, clearW_exited, clearW_parked, clearW_eq_exited, clearW_eq_parked, srW, lgW, clAllW, clPreW, St.bg, onOk, onErr, selNext, afterSetErr, srAllW, nextC] <;> (try omega) <;> (try grind)
+    cases b <;> (try simp only [St.setDone, St.setBg, ↓reduceIte, Bool.false_eq_true, Bool.and_false, Bool.and_true, Bool.false_and, Bool.true_and]) <;> (repeat' split) <;> simp_all [tot_set_eq _ _ _ _ _ hi, tot_ackWs_srw', tot_ackWs_lgw, tot_ackWs_clall, tot_ackWs_clpre, b2n_true, b2n_false, clearW_idle, clearW_exited, clearW_parked, clearW_eq_exited, clearW_eq_parked, srW, lgW, clAllW, clPreW, St.bg, onOk, onErr, selNext, afterSetErr, srAllW, nextC, roSets] <;> (try omega) <;> (try (cases hk : s.ehTok <;> cases hc0 : s.closed <;> simp_all [b2n_true, b2n_false] <;> omega)) <;> (try grind)
   | putJournalOk _ i hi =>
     clear h4
     have l0 := le_tot srW _ _ _ hi
     have l1 := le_tot lgW _ _ _ hi
     have l2 := le_tot clAllW _ _ _ hi
     have l3 := le_tot clPreW _ _ _ hi
-    (try simp only [St.setDone, St.setBg, ↓reduceIte, Bool.false_eq_true, Bool.and_false, Bool.and_true, Bool.false_and, Bool.true_and]) <;> (repeat' split) <;> simp_all [tot_set_eq _ _ _ _ _ hi, tot_ackWs_srw', tot_ackWs_lgw, tot_ackWs_clall, tot_ackWs_clpre, b2n_true, b2n_false, clearW_idle, clearW_exited, clearW_parked, clearW_eq_exited, clearW_eq_parked, srW, lgW, clAllW, clPreW, St.bg, onOk, onErr, selNext, afterSetErr, srAllW, nextC] <;> (try omega) <;> (try grind)
+    (try simp only [St.setDone, St.setBg, ↓reduceIte, Bool.false_eq_true, Bool.and_false, Bool.and_true, Bool.false_and, Bool.true_and]) <;> (repeat' split) <;> simp_all [tot_set_eq _ _ _ _ _ hi, tot_ackWs_srw', tot_ackWs_lgw, tot_ackWs_clall, tot_ackWs_clpre, b2n_true, b2n_false, clearW_idle, clearW_exited, clearW_parked, clearW_eq_exited, clearW_eq_parked, srW, lgW, clAllW, clPreW, St.bg, onOk, onErr, selNext, afterSetErr, srAllW, nextC, roSets] <;> (try omega) <;> (try (cases hk : s.ehTok <;> cases hc0 : s.closed <;> simp_all [b2n_true, b2n_false] <;> omega)) <;> (try grind)
   | putJournalFail _ i hi =>
     clear h4
     have l0 := le_tot srW _ _ _ hi
     have l1 := le_tot lgW _ _ _ hi
     have l2 := le_tot clAllW _ _ _ hi
     have l3 := le_tot clPreW _ _ _ hi
-    (try simp only [St.setDone, St.setBg, ↓reduceIte, Bool.false_eq_true, Bool.and_false, Bool.and_true, Bool.false_and, Bool.true_and]) <;> (repeat' split) <;> simp_all [tot_set_eq _ _ _ _ _ hi, tot_ackWs_srw', tot_ackWs_lgw, tot_ackWs_clall, tot_ackWs_clpre, b2n_true, b2n_false, clearW_idle, clearW_exited, clearW_parked, clearW_eq_exited, clearW_eq_parked, srW, lgW, clAllW, clPreW, St.bg, onOk, onErr, selNext, afterSetErr, srAllW, nextC] <;> (try omega) <;> (try grind)
+    (try simp only [St.setDone, St.setBg, ↓reduceIte, Bool.false_eq_true, Bool.and_false, Bool.and_true, Bool.false_and, Bool.true_and]) <;> (repeat' split) <;> simp_all [tot_set_eq _ _ _ _ _ hi, tot_ackWs_srw', tot_ackWs_lgw, tot_ackWs_clall, tot_ackWs_clpre, b2n_true, b2n_false, clearW_idle, clearW_exited, clearW_parked, clearW_eq_exited, clearW_eq_parked, srW, lgW, clAllW, clPreW, St.bg, onOk, onErr, selNext, afterSetErr, srAllW, nextC, roSets] <;> (try omega) <;> (try (cases hk : s.ehTok <;> cases hc0 : s.closed <;> simp_all [b2n_true, b2n_false] <;> omega)) <;> (try grind)
   | putUnlock _ i r hi =>
     clear h4
     have l0 := le_tot srW _ _ _ hi
     have l1 := le_tot lgW _ _ _ hi
     have l2 := le_tot clAllW _ _ _ hi
     have l3 := le_tot clPreW _ _ _ hi
-    cases r <;> (try simp only [St.setDone, St.setBg, ↓reduceIte, Bool.false_eq_true, Bool.and_false, Bool.and_true, Bool.false_and, Bool.true_and]) <;> (repeat' split) <;> simp_all [tot_set_eq _ _ _ _ _ hi, tot_ackWs_srw', tot_ackWs_lgw, tot_ackWs_clall, tot_ackWs_clpre, b2n_true, b2n_false, clearW_idle, clearW_exited, clearW_parked, clearW_eq_exited, clearW_eq_parked, srW, lgW, clAllW, clPreW, St.bg, onOk, onErr, selNext, afterSetErr, srAllW, nextC] <;> (try omega) <;> (try grind)
+    cases r <;> (try simp only [St.setDone, St.setBg, ↓reduceIte, Bool.false_eq_true, Bool.and_false, Bool.and_true, Bool.false_and, Bool.true_and]) <;> (repeat' split) <;> simp_all [tot_set_eq _ _ _ _ _ hi, tot_ackWs_srw', tot_ackWs_lgw, tot_ackWs_clall, tot_ackWs_clpre, b2n_true, b2n_false, clearW_idle, clearW_exited, clearW_parked, clearW_eq_exited, clearW_eq_parked, srW, lgW, clAllW, clPreW, St.bg, onOk, onErr, selNext, afterSetErr, srAllW, nextC, roSets] <;> (try omega) <;> (try (cases hk : s.ehTok <;> cases hc0 : s.closed <;> simp_all [b2n_true, b2n_false] <;> omega)) <;> (try grind)
   | cwSendGo _ i b site lg hi hb hro =>
     clear h4
     have l0 := le_tot srW _ _ _ hi
     have l1 := le_tot lgW _ _ _ hi
     have l2 := le_tot clAllW _ _ _ hi
     have l3 := le_tot clPreW _ _ _ hi
-    cases site <;> cases b <;> cases lg <;> (try simp only [St.setDone, St.setBg, ↓reduceIte, Bool.false_eq_true, Bool.and_false, Bool.and_true, Bool.false_and, Bool.true_and]) <;> (repeat' split) <;> simp_all [tot_set_eq _ _ _ _ _ hi, tot_ackWs_srw', tot_ackWs_lgw, tot_ackWs_clall, tot_ackWs_clpre, b2n_true, b2n_false, clearW_idle, clearW_exited, clearW_parked, clearW_eq_exited, clearW_eq_parked, srW, lgW, clAllW, clPreW, St.bg, onOk, onErr, selNext, afterSetErr, srAllW, nextC] <;> (try omega) <;> (try grind)
+    cases site <;> cases b <;> cases lg <;> (try simp only [St.setDone, St.setBg, ↓reduceIte, Bool.false_eq_true, Bool.and_false, Bool.and_true, Bool.false_and, Bool.true_and]) <;> (repeat' split) <;> simp_all [tot_set_eq _ _ _ _ _ hi, tot_ackWs_srw', tot_ackWs_lgw, tot_ackWs_clall, tot_ackWs_clpre, b2n_true, b2n_false, clearW_idle, clearW_exited, clearW_parked, clearW_eq_exited, clearW_eq_parked, srW, lgW, clAllW, clPreW, St.bg, onOk, onErr, selNext, afterSetErr, srAllW, nextC, roSets] <;> (try omega) <;> (try (cases hk : s.ehTok <;> cases hc0 : s.closed <;> simp_all [b2n_true, b2n_false] <;> omega)) <;> (try grind)
   | cwSendRO _ i site lg hi hb hp hro =>
     clear h4
     have l0 := le_tot srW _ _ _ hi
     have l1 := le_tot lgW _ _ _ hi
     have l2 := le_tot clAllW _ _ _ hi
     have l3 := le_tot clPreW _ _ _ hi
-    cases site <;> cases lg <;> (try simp only [St.setDone, St.setBg, ↓reduceIte, Bool.false_eq_true, Bool.and_false, Bool.and_true, Bool.false_and, Bool.true_and]) <;> (repeat' split) <;> simp_all [tot_set_eq _ _ _ _ _ hi, tot_ackWs_srw', tot_ackWs_lgw, tot_ackWs_clall, tot_ackWs_clpre, b2n_true, b2n_false, clearW_idle, clearW_exited, clearW_parked, clearW_eq_exited, clearW_eq_parked, srW, lgW, clAllW, clPreW, St.bg, onOk, onErr, selNext, afterSetErr, srAllW, nextC] <;> (try omega) <;> (try grind)
+    cases site <;> cases lg <;> (try simp only [St.setDone, St.setBg, ↓reduceIte, Bool.false_eq_true, Bool.and_false, Bool.and_true, Bool.false_and, Bool.true_and]) <;> (repeat' split) <;> simp_all [tot_set_eq _ _ _ _ _ hi, tot_ackWs_srw', tot_ackWs_lgw, tot_ackWs_clall, tot_ackWs_clpre, b2n_true, b2n_false, clearW_idle, clearW_exited, clearW_parked, clearW_eq_exited, clearW_eq_parked, srW, lgW, clAllW, clPreW, St.bg, onOk, onErr, selNext, afterSetErr, srAllW, nextC, roSets] <;> (try omega) <;> (try (cases hk : s.ehTok <;> cases hc0 : s.closed <;> simp_all [b2n_true, b2n_false] <;> omega)) <;> (try grind)
   | cwSendErr _ i b site lg hi he =>
     clear h4
     have l0 := le_tot srW _ _ _ hi
     have l1 := le_tot lgW _ _ _ hi
     have l2 := le_tot clAllW _ _ _ hi
     have l3 := le_tot clPreW _ _ _ hi
-    cases site <;> cases b <;> cases lg <;> (try simp only [St.setDone, St.setBg, ↓reduceIte, Bool.false_eq_true, Bool.and_false, Bool.and_true, Bool.false_and, Bool.true_and]) <;> (repeat' split) <;> simp_all [tot_set_eq _ _ _ _ _ hi, tot_ackWs_srw', tot_ackWs_lgw, tot_ackWs_clall, tot_ackWs_clpre, b2n_true, b2n_false, clearW_idle, clearW_exited, clearW_parked, clearW_eq_exited, clearW_eq_parked, srW, lgW, clAllW, clPreW, St.bg, onOk, onErr, selNext, afterSetErr, srAllW, nextC] <;> (try omega) <;> (try grind)
+    cases site <;> cases b <;> cases lg <;> (try simp only [St.setDone, St.setBg, ↓reduceIte, Bool.false_eq_true, Bool.and_false, Bool.and_true, Bool.false_and, Bool.true_and]) <;> (repeat' split) <;> simp_all [tot_set_eq _ _ _ _ _ hi, tot_ackWs_srw', tot_ackWs_lgw, tot_ackWs_clall, tot_ackWs_clpre, b2n_true, b2n_false, clearW_idle, clearW_exited, clearW_parked, clearW_eq_exited, clearW_eq_parked, srW, lgW, clAllW, clPreW, St.bg, onOk, onErr, selNext, afterSetErr, srAllW, nextC, roSets] <;> (try omega) <;> (try (cases hk : s.ehTok <;> cases hc0 : s.closed <;> simp_all [b2n_true, b2n_false] <;> omega)) <;> (try grind)
   | cwAckErr _ i b site lg hi he =>
     clear h4
     have l0 := le_tot srW _ _ _ hi
     have l1 := le_tot lgW _ _ _ hi
     have l2 := le_tot clAllW _ _ _ hi
     have l3 := le_tot clPreW _ _ _ hi
-    cases site <;> cases b <;> cases lg <;> (try simp only [St.setDone, St.setBg, ↓reduceIte, Bool.false_eq_true, Bool.and_false, Bool.and_true, Bool.false_and, Bool.true_and]) <;> (repeat' split) <;> simp_all [tot_set_eq _ _ _ _ _ hi, tot_ackWs_srw', tot_ackWs_lgw, tot_ackWs_clall, tot_ackWs_clpre, b2n_true, b2n_false, clearW_idle, clearW_exited, clearW_parked, clearW_eq_exited, clearW_eq_parked, srW, lgW, clAllW, clPreW, St.bg, onOk, onErr, selNext, afterSetErr, srAllW, nextC] <;> (try omega) <;> (try grind)
+    cases site <;> cases b <;> cases lg <;> (try simp only [St.setDone, St.setBg, ↓reduceIte, Bool.false_eq_true, Bool.and_false, Bool.and_true, Bool.false_and, Bool.true_and]) <;> (repeat' split) <;> simp_all [tot_set_eq _ _ _ _ _ hi, tot_ackWs_srw', tot_ackWs_lgw, tot_ackWs_clall, tot_ackWs_clpre, b2n_true, b2n_false, clearW_idle, clearW_exited, clearW_parked, clearW_eq_exited, clearW_eq_parked, srW, lgW, clAllW, clPreW, St.bg, onOk, onErr, selNext, afterSetErr, srAllW, nextC, roSets] <;> (try omega) <;> (try (cases hk : s.ehTok <;> cases hc0 : s.closed <;> simp_all [b2n_true, b2n_false] <;> omega)) <;> (try grind)
   | otxRotate _ i lg hi =>
     clear h4
     have l0 := le_tot srW _ _ _ hi
     have l1 := le_tot lgW _ _ _ hi
     have l2 := le_tot clAllW _ _ _ hi
     have l3 := le_tot clPreW _ _ _ hi
-    cases lg <;> (try simp only [St.setDone, St.setBg, ↓reduceIte, Bool.false_eq_true, Bool.and_false, Bool.and_true, Bool.false_and, Bool.true_and]) <;> (repeat' split) <;> simp_all [tot_set_eq _ _ _ _ _ hi, tot_ackWs_srw', tot_ackWs_lgw, tot_ackWs_clall, tot_ackWs_clpre, b2n_true, b2n_false, clearW_idle, clearW_exited, clearW_parked, clearW_eq_exited, clearW_eq_parked, srW, lgW, clAllW, clPreW, St.bg, onOk, onErr, selNext, afterSetErr, srAllW, nextC] <;> (try omega) <;> (try grind)
+    cases lg <;> (try simp only [St.setDone, St.setBg, ↓reduceIte, Bool.false_eq_true, Bool.and_false, Bool.and_true, Bool.false_and, Bool.true_and]) <;> (repeat' split) <;> simp_all [tot_set_eq _ _ _ _ _ hi, tot_ackWs_srw', tot_ackWs_lgw, tot_ackWs_clall, tot_ackWs_clpre, b2n_true, b2n_false, clearW_idle, clearW_exited, clearW_parked, clearW_eq_exited, clearW_eq_parked, srW, lgW, clAllW, clPreW, St.bg, onOk, onErr, selNext, afterSetErr, srAllW, nextC, roSets] <;> (try omega) <;> (try (cases hk : s.ehTok <;> cases hc0 : s.closed <;> simp_all [b2n_true, b2n_false] <;> omega)) <;> (try grind)
   | otxNoRotate _ i lg hi =>
     clear h4
     have l0 := le_tot srW _ _ _ hi
     have l1 := le_tot lgW _ _ _ hi
     have l2 := le_tot clAllW _ _ _ hi
     have l3 := le_tot clPreW _ _ _ hi
-    cases lg <;> (try simp only [St.setDone, St.setBg, ↓reduceIte, Bool.false_eq_true, Bool.and_false, Bool.and_true, Bool.false_and, Bool.true_and]) <;> (repeat' split) <;> simp_all [tot_set_eq _ _ _ _ _ hi, tot_ackWs_srw', tot_ackWs_lgw, tot_ackWs_clall, tot_ackWs_clpre, b2n_true, b2n_false, clearW_idle, clearW_exited, clearW_parked, clearW_eq_exited, clearW_eq_parked, srW, lgW, clAllW, clPreW, St.bg, onOk, onErr, selNext, afterSetErr, srAllW, nextC] <;> (try omega) <;> (try grind)
+    cases lg <;> (try simp only [St.setDone, St.setBg, ↓reduceIte, Bool.false_eq_true, Bool.and_false, Bool.and_true, Bool.false_and, Bool.true_and]) <;> (repeat' split) <;> simp_all [tot_set_eq _ _ _ _ _ hi, tot_ackWs_srw', tot_ackWs_lgw, tot_ackWs_clall, tot_ackWs_clpre, b2n_true, b2n_false, clearW_idle, clearW_exited, clearW_parked, clearW_eq_exited, clearW_eq_parked, srW, lgW, clAllW, clPreW, St.bg, onOk, onErr, selNext, afterSetErr, srAllW, nextC, roSets] <;> (try omega) <;> (try (cases hk : s.ehTok <;> cases hc0 : s.closed <;> simp_all [b2n_true, b2n_false] <;> omega)) <;> (try grind)
   | otxNewMemOk _ i lg hi =>
     clear h4
     have l0 := le_tot srW _ _ _ hi
     have l1 := le_tot lgW _ _ _ hi
     have l2 := le_tot clAllW _ _ _ hi
     have l3 := le_tot clPreW _ _ _ hi
-    cases lg <;> (try simp only [St.setDone, St.setBg, ↓reduceIte, Bool.false_eq_true, Bool.and_false, Bool.and_true, Bool.false_and, Bool.true_and]) <;> (repeat' split) <;> simp_all [tot_set_eq _ _ _ _ _ hi, tot_ackWs_srw', tot_ackWs_lgw, tot_ackWs_clall, tot_ackWs_clpre, b2n_true, b2n_false, clearW_idle, clearW_exited, clearW_parked, clearW_eq_exited, clearW_eq_parked, srW, lgW, clAllW, clPreW, St.bg, onOk, onErr, selNext, afterSetErr, srAllW, nextC] <;> (try omega) <;> (try grind)
+    cases lg <;> (try simp only [St.setDone, St.setBg, ↓reduceIte, Bool.false_eq_true, Bool.and_false, Bool.and_true, Bool.false_and, Bool.true_and]) <;> (repeat' split) <;> simp_all [tot_set_eq _ _ _ _ _ hi, tot_ackWs_srw', tot_ackWs_lgw, tot_ackWs_clall, tot_ackWs_clpre, b2n_true, b2n_false, clearW_idle, clearW_exited, clearW_parked, clearW_eq_exited, clearW_eq_parked, srW, lgW, clAllW, clPreW, St.bg, onOk, onErr, selNext, afterSetErr, srAllW, nextC, roSets] <;> (try omega) <;> (try (cases hk : s.ehTok <;> cases hc0 : s.closed <;> simp_all [b2n_true, b2n_false] <;> omega)) <;> (try grind)
   | otxNewMemFail _ i lg hi =>
     clear h4
     have l0 := le_tot srW _ _ _ hi
     have l1 := le_tot lgW _ _ _ hi
     have l2 := le_tot clAllW _ _ _ hi
     have l3 := le_tot clPreW _ _ _ hi
-    cases lg <;> (try simp only [St.setDone, St.setBg, ↓reduceIte, Bool.false_eq_true, Bool.and_false, Bool.and_true, Bool.false_and, Bool.true_and]) <;> (repeat' split) <;> simp_all [tot_set_eq _ _ _ _ _ hi, tot_ackWs_srw', tot_ackWs_lgw, tot_ackWs_clall, tot_ackWs_clpre, b2n_true, b2n_false, clearW_idle, clearW_exited, clearW_parked, clearW_eq_exited, clearW_eq_parked, srW, lgW, clAllW, clPreW, St.bg, onOk, onErr, selNext, afterSetErr, srAllW, nextC] <;> (try omega) <;> (try grind)
+    cases lg <;> (try simp only [St.setDone, St.setBg, ↓reduceIte, Bool.false_eq_true, Bool.and_false, Bool.and_true, Bool.false_and, Bool.true_and]) <;> (repeat' split) <;> simp_all [tot_set_eq _ _ _ _ _ hi, tot_ackWs_srw', tot_ackWs_lgw, tot_ackWs_clall, tot_ackWs_clpre, b2n_true, b2n_false, clearW_idle, clearW_exited, clearW_parked, clearW_eq_exited, clearW_eq_parked, srW, lgW, clAllW, clPreW, St.bg, onOk, onErr, selNext, afterSetErr, srAllW, nextC, roSets] <;> (try omega) <;> (try (cases hk : s.ehTok <;> cases hc0 : s.closed <;> simp_all [b2n_true, b2n_false] <;> omega)) <;> (try grind)
   | otxNoWaitComp _ i lg hi =>
     clear h4
     have l0 := le_tot srW _ _ _ hi
     have l1 := le_tot lgW _ _ _ hi
     have l2 := le_tot clAllW _ _ _ hi
     have l3 := le_tot clPreW _ _ _ hi
-    cases lg <;> (try simp only [St.setDone, St.setBg, ↓reduceIte, Bool.false_eq_true, Bool.and_false, Bool.and_true, Bool.false_and, Bool.true_and]) <;> (repeat' split) <;> simp_all [tot_set_eq _ _ _ _ _ hi, tot_ackWs_srw', tot_ackWs_lgw, tot_ackWs_clall, tot_ackWs_clpre, b2n_true, b2n_false, clearW_idle, clearW_exited, clearW_parked, clearW_eq_exited, clearW_eq_parked, srW, lgW, clAllW, clPreW, St.bg, onOk, onErr, selNext, afterSetErr, srAllW, nextC] <;> (try omega) <;> (try grind)
+    cases lg <;> (try simp only [St.setDone, St.setBg, ↓reduceIte, Bool.false_eq_true, Bool.and_false, Bool.and_true, Bool.false_and, Bool.true_and]) <;> (repeat' split) <;> simp_all [tot_set_eq _ _ _ _ _ hi, tot_ackWs_srw', tot_ackWs_lgw, tot_ackWs_clall, tot_ackWs_clpre, b2n_true, b2n_false, clearW_idle, clearW_exited, clearW_parked, clearW_eq_exited, clearW_eq_parked, srW, lgW, clAllW, clPreW, St.bg, onOk, onErr, selNext, afterSetErr, srAllW, nextC, roSets] <;> (try omega) <;> (try (cases hk : s.ehTok <;> cases hc0 : s.closed <;> simp_all [b2n_true, b2n_false] <;> omega)) <;> (try grind)
   | otxWaitComp _ i lg hi =>
     clear h4
     have l0 := le_tot srW _ _ _ hi
     have l1 := le_tot lgW _ _ _ hi
     have l2 := le_tot clAllW _ _ _ hi
     have l3 := le_tot clPreW _ _ _ hi
-    cases lg <;> (try simp only [St.setDone, St.setBg, ↓reduceIte, Bool.false_eq_true, Bool.and_false, Bool.and_true, Bool.false_and, Bool.true_and]) <;> (repeat' split) <;> simp_all [tot_set_eq _ _ _ _ _ hi, tot_ackWs_srw', tot_ackWs_lgw, tot_ackWs_clall, tot_ackWs_clpre, b2n_true, b2n_false, clearW_idle, clearW_exited, clearW_parked, clearW_eq_exited, clearW_eq_parked, srW, lgW, clAllW, clPreW, St.bg, onOk, onErr, selNext, afterSetErr, srAllW, nextC] <;> (try omega) <;> (try grind)
+    cases lg <;> (try simp only [St.setDone, St.setBg, ↓reduceIte, Bool.false_eq_true, Bool.and_false, Bool.and_true, Bool.false_and, Bool.true_and]) <;> (repeat' split) <;> simp_all [tot_set_eq _ _ _ _ _ hi, tot_ackWs_srw', tot_ackWs_lgw, tot_ackWs_clall, tot_ackWs_clpre, b2n_true, b2n_false, clearW_idle, clearW_exited, clearW_parked, clearW_eq_exited, clearW_eq_parked, srW, lgW, clAllW, clPreW, St.bg, onOk, onErr, selNext, afterSetErr, srAllW, nextC, roSets] <;> (try omega) <;> (try (cases hk : s.ehTok <;> cases hc0 : s.closed <;> simp_all [b2n_true, b2n_false] <;> omega)) <;> (try grind)
   | otxFail _ i lg hi =>
     clear h4
     have l0 := le_tot srW _ _ _ hi
     have l1 := le_tot lgW _ _ _ hi
     have l2 := le_tot clAllW _ _ _ hi
     have l3 := le_tot clPreW _ _ _ hi
-    cases lg <;> (try simp only [St.setDone, St.setBg, ↓reduceIte, Bool.false_eq_true, Bool.and_false, Bool.and_true, Bool.false_and, Bool.true_and]) <;> (repeat' split) <;> simp_all [tot_set_eq _ _ _ _ _ hi, tot_ackWs_srw', tot_ackWs_lgw, tot_ackWs_clall, tot_ackWs_clpre, b2n_true, b2n_false, clearW_idle, clearW_exited, clearW_parked, clearW_eq_exited, clearW_eq_parked, srW, lgW, clAllW, clPreW, St.bg, onOk, onErr, selNext, afterSetErr, srAllW, nextC] <;> (try omega) <;> (try grind)
+    cases lg <;> (try simp only [St.setDone, St.setBg, ↓reduceIte, Bool.false_eq_true, Bool.and_false, Bool.and_true, Bool.false_and, Bool.true_and]) <;> (repeat' split) <;> simp_all [tot_set_eq _ _ _ _ _ hi, tot_ackWs_srw', tot_ackWs_lgw, tot_ackWs_clall, tot_ackWs_clpre, b2n_true, b2n_false, clearW_idle, clearW_exited, clearW_parked, clearW_eq_exited, clearW_eq_parked, srW, lgW, clAllW, clPreW, St.bg, onOk, onErr, selNext, afterSetErr, srAllW, nextC, roSets] <;> (try omega) <;> (try (cases hk : s.ehTok <;> cases hc0 : s.closed <;> simp_all [b2n_true, b2n_false] <;> omega)) <;> (try grind)
   | otxRel _ i lg hi =>
     clear h4
     have l0 := le_tot srW _ _ _ hi
     have l1 := le_tot lgW _ _ _ hi
     have l2 := le_tot clAllW _ _ _ hi
     have l3 := le_tot clPreW _ _ _ hi
-    cases lg <;> (try simp only [St.setDone, St.setBg, ↓reduceIte, Bool.false_eq_true, Bool.and_false, Bool.and_true, Bool.false_and, Bool.true_and]) <;> (repeat' split) <;> simp_all [tot_set_eq _ _ _ _ _ hi, tot_ackWs_srw', tot_ackWs_lgw, tot_ackWs_clall, tot_ackWs_clpre, b2n_true, b2n_false, clearW_idle, clearW_exited, clearW_parked, clearW_eq_exited, clearW_eq_parked, srW, lgW, clAllW, clPreW, St.bg, onOk, onErr, selNext, afterSetErr, srAllW, nextC] <;> (try omega) <;> (try grind)
+    cases lg <;> (try simp only [St.setDone, St.setBg, ↓reduceIte, Bool.false_eq_true, Bool.and_false, Bool.and_true, Bool.false_and, Bool.true_and]) <;> (repeat' split) <;> simp_all [tot_set_eq _ _ _ _ _ hi, tot_ackWs_srw', tot_ackWs_lgw, tot_ackWs_clall, tot_ackWs_clpre, b2n_true, b2n_false, clearW_idle, clearW_exited, clearW_parked, clearW_eq_exited, clearW_eq_parked, srW, lgW, clAllW, clPreW, St.bg, onOk, onErr, selNext, afterSetErr, srAllW, nextC, roSets] <;> (try omega) <;> (try (cases hk : s.ehTok <;> cases hc0 : s.closed <;> simp_all [b2n_true, b2n_false] <;> omega)) <;> (try grind)
   | otxDone _ i lg hi =>
     clear h4
     have l0 := le_tot srW _ _ _ hi
     have l1 := le_tot lgW _ _ _ hi
     have l2 := le_tot clAllW _ _ _ hi
     have l3 := le_tot clPreW _ _ _ hi
-    cases lg <;> (try simp only [St.setDone, St.setBg, ↓reduceIte, Bool.false_eq_true, Bool.and_false, Bool.and_true, Bool.false_and, Bool.true_and]) <;> (repeat' split) <;> simp_all [tot_set_eq _ _ _ _ _ hi, tot_ackWs_srw', tot_ackWs_lgw, tot_ackWs_clall, tot_ackWs_clpre, b2n_true, b2n_false, clearW_idle, clearW_exited, clearW_parked, clearW_eq_exited, clearW_eq_parked, srW, lgW, clAllW, clPreW, St.bg, onOk, onErr, selNext, afterSetErr, srAllW, nextC] <;> (try omega) <;> (try grind)
+    cases lg <;> (try simp only [St.setDone, St.setBg, ↓reduceIte, Bool.false_eq_true, Bool.and_false, Bool.and_true, Bool.false_and, Bool.true_and]) <;> (repeat' split) <;> simp_all [tot_set_eq _ _ _ _ _ hi, tot_ackWs_srw', tot_ackWs_lgw, tot_ackWs_clall, tot_ackWs_clpre, b2n_true, b2n_false, clearW_idle, clearW_exited, clearW_parked, clearW_eq_exited, clearW_eq_parked, srW, lgW, clAllW, clPreW, St.bg, onOk, onErr, selNext, afterSetErr, srAllW, nextC, roSets] <;> (try omega) <;> (try (cases hk : s.ehTok <;> cases hc0 : s.closed <;> simp_all [b2n_true, b2n_false] <;> omega)) <;> (try grind)
   | lgWriteOk _ i hi =>
     clear h4
     have l0 := le_tot srW _ _ _ hi
     have l1 := le_tot lgW _ _ _ hi
     have l2 := le_tot clAllW _ _ _ hi
     have l3 := le_tot clPreW _ _ _ hi
-    (try simp only [St.setDone, St.setBg, ↓reduceIte, Bool.false_eq_true, Bool.and_false, Bool.and_true, Bool.false_and, Bool.true_and]) <;> (repeat' split) <;> simp_all [tot_set_eq _ _ _ _ _ hi, tot_ackWs_srw', tot_ackWs_lgw, tot_ackWs_clall, tot_ackWs_clpre, b2n_true, b2n_false, clearW_idle, clearW_exited, clearW_parked, clearW_eq_exited, clearW_eq_parked, srW, lgW, clAllW, clPreW, St.bg, onOk, onErr, selNext, afterSetErr, srAllW, nextC] <;> (try omega) <;> (try grind)
+    (try simp only [St.setDone, St.setBg, ↓reduceIte, Bool.false_eq_true, Bool.and_false, Bool.and_true, Bool.false_and, Bool.true_and]) <;> (repeat' split) <;> simp_all [tot_set_eq _ _ _ _ _ hi, tot_ackWs_srw', tot_ackWs_lgw, tot_ackWs_clall, tot_ackWs_clpre, b2n_true, b2n_false, clearW_idle, clearW_exited, clearW_parked, clearW_eq_exited, clearW_eq_parked, srW, lgW, clAllW, clPreW, St.bg, onOk, onErr, selNext, afterSetErr, srAllW, nextC, roSets] <;> (try omega) <;> (try (cases hk : s.ehTok <;> cases hc0 : s.closed <;> simp_all [b2n_true, b2n_false] <;> omega)) <;> (try grind)
   | lgWriteFail _ i hi =>
     clear h4
     have l0 := le_tot srW _ _ _ hi
     have l1 := le_tot lgW _ _ _ hi
     have l2 := le_tot clAllW _ _ _ hi
     have l3 := le_tot clPreW _ _ _ hi
-    (try simp only [St.setDone, St.setBg, ↓reduceIte, Bool.false_eq_true, Bool.and_false, Bool.and_true, Bool.false_and, Bool.true_and]) <;> (repeat' split) <;> simp_all [tot_set_eq _ _ _ _ _ hi, tot_ackWs_srw', tot_ackWs_lgw, tot_ackWs_clall, tot_ackWs_clpre, b2n_true, b2n_false, clearW_idle, clearW_exited, clearW_parked, clearW_eq_exited, clearW_eq_parked, srW, lgW, clAllW, clPreW, St.bg, onOk, onErr, selNext, afterSetErr, srAllW, nextC] <;> (try omega) <;> (try grind)
+    (try simp only [St.setDone, St.setBg, ↓reduceIte, Bool.false_eq_true, Bool.and_false, Bool.and_true, Bool.false_and, Bool.true_and]) <;> (repeat' split) <;> simp_all [tot_set_eq _ _ _ _ _ hi, tot_ackWs_srw', tot_ackWs_lgw, tot_ackWs_clall, tot_ackWs_clpre, b2n_true, b2n_false, clearW_idle, clearW_exited, clearW_parked, clearW_eq_exited, clearW_eq_parked, srW, lgW, clAllW, clPreW, St.bg, onOk, onErr, selNext, afterSetErr, srAllW, nextC, roSets] <;> (try omega) <;> (try (cases hk : s.ehTok <;> cases hc0 : s.closed <;> simp_all [b2n_true, b2n_false] <;> omega)) <;> (try grind)
   | cmLockTr _ i lg hi hl =>
     clear h4
     have l0 := le_tot srW _ _ _ hi
     have l1 := le_tot lgW _ _ _ hi
     have l2 := le_tot clAllW _ _ _ hi
     have l3 := le_tot clPreW _ _ _ hi
-    cases lg <;> (try simp only [St.setDone, St.setBg, ↓reduceIte, Bool.false_eq_true, Bool.and_false, Bool.and_true, Bool.false_and, Bool.true_and]) <;> (repeat' split) <;> simp_all [tot_set_eq _ _ _ _ _ hi, tot_ackWs_srw', tot_ackWs_lgw, tot_ackWs_clall, tot_ackWs_clpre, b2n_true, b2n_false, clearW_idle, clearW_exited, clearW_parked, clearW_eq_exited, clearW_eq_parked, srW, lgW, clAllW, clPreW, St.bg, onOk, onErr, selNext, afterSetErr, srAllW, nextC] <;> (try omega) <;> (try grind)
+    cases lg <;> (try simp only [St.setDone, St.setBg, ↓reduceIte, Bool.false_eq_true, Bool.and_false, Bool.and_true, Bool.false_and, Bool.true_and]) <;> (repeat' split) <;> simp_all [tot_set_eq _ _ _ _ _ hi, tot_ackWs_srw', tot_ackWs_lgw, tot_ackWs_clall, tot_ackWs_clpre, b2n_true, b2n_false, clearW_idle, clearW_exited, clearW_parked, clearW_eq_exited, clearW_eq_parked, srW, lgW, clAllW, clPreW, St.bg, onOk, onErr, selNext, afterSetErr, srAllW, nextC, roSets] <;> (try omega) <;> (try (cases hk : s.ehTok <;> cases hc0 : s.closed <;> simp_all [b2n_true, b2n_false] <;> omega)) <;> (try grind)
   | cmFlushOk _ i lg hi =>
     clear h4
     have l0 := le_tot srW _ _ _ hi
     have l1 := le_tot lgW _ _ _ hi
     have l2 := le_tot clAllW _ _ _ hi
     have l3 := le_tot clPreW _ _ _ hi
-    cases lg <;> (try simp only [St.setDone, St.setBg, ↓reduceIte, Bool.false_eq_true, Bool.and_false, Bool.and_true, Bool.false_and, Bool.true_and]) <;> (repeat' split) <;> simp_all [tot_set_eq _ _ _ _ _ hi, tot_ackWs_srw', tot_ackWs_lgw, tot_ackWs_clall, tot_ackWs_clpre, b2n_true, b2n_false, clearW_idle, clearW_exited, clearW_parked, clearW_eq_exited, clearW_eq_parked, srW, lgW, clAllW, clPreW, St.bg, onOk, onErr, selNext, afterSetErr, srAllW, nextC] <;> (try omega) <;> (try grind)
+    cases lg <;> (try simp only [St.setDone, St.setBg, ↓reduceIte, Bool.false_eq_true, Bool.and_false, Bool.and_true, Bool.false_and, Bool.true_and]) <;> (repeat' split) <;> simp_all [tot_set_eq _ _ _ _ _ hi, tot_ackWs_srw', tot_ackWs_lgw, tot_ackWs_clall, tot_ackWs_clpre, b2n_true, b2n_false, clearW_idle, clearW_exited, clearW_parked, clearW_eq_exited, clearW_eq_parked, srW, lgW, clAllW, clPreW, St.bg, onOk, onErr, selNext, afterSetErr, srAllW, nextC, roSets] <;> (try omega) <;> (try (cases hk : s.ehTok <;> cases hc0 : s.closed <;> simp_all [b2n_true, b2n_false] <;> omega)) <;> (try grind)
   | cmFlushEmpty _ i lg hi =>
     clear h4
     have l0 := le_tot srW _ _ _ hi
     have l1 := le_tot lgW _ _ _ hi
     have l2 := le_tot clAllW _ _ _ hi
     have l3 := le_tot clPreW _ _ _ hi
-    cases lg <;> (try simp only [St.setDone, St.setBg, ↓reduceIte, Bool.false_eq_true, Bool.and_false, Bool.and_true, Bool.false_and, Bool.true_and]) <;> (repeat' split) <;> simp_all [tot_set_eq _ _ _ _ _ hi, tot_ackWs_srw', tot_ackWs_lgw, tot_ackWs_clall, tot_ackWs_clpre, b2n_true, b2n_false, clearW_idle, clearW_exited, clearW_parked, clearW_eq_exited, clearW_eq_parked, srW, lgW, clAllW, clPreW, St.bg, onOk, onErr, selNext, afterSetErr, srAllW, nextC] <;> (try omega) <;> (try grind)
+    cases lg <;> (try simp only [St.setDone, St.setBg, ↓reduceIte, Bool.false_eq_true, Bool.and_false, Bool.and_true, Bool.false_and, Bool.true_and]) <;> (repeat' split) <;> simp_all [tot_set_eq _ _ _ _ _ hi, tot_ackWs_srw', tot_ackWs_lgw, tot_ackWs_clall, tot_ackWs_clpre, b2n_true, b2n_false, clearW_idle, clearW_exited, clearW_parked, clearW_eq_exited, clearW_eq_parked, srW, lgW, clAllW, clPreW, St.bg, onOk, onErr, selNext, afterSetErr, srAllW, nextC, roSets] <;> (try omega) <;> (try (cases hk : s.ehTok <;> cases hc0 : s.closed <;> simp_all [b2n_true, b2n_false] <;> omega)) <;> (try grind)
   | cmFlushFail _ i lg hi =>
     clear h4
     have l0 := le_tot srW _ _ _ hi
     have l1 := le_tot lgW _ _ _ hi
     have l2 := le_tot clAllW _ _ _ hi
     have l3 := le_tot clPreW _ _ _ hi
-    cases lg <;> (try simp only [St.setDone, St.setBg, ↓reduceIte, Bool.false_eq_true, Bool.and_false, Bool.and_true, Bool.false_and, Bool.true_and]) <;> (repeat' split) <;> simp_all [tot_set_eq _ _ _ _ _ hi, tot_ackWs_srw', tot_ackWs_lgw, tot_ackWs_clall, tot_ackWs_clpre, b2n_true, b2n_false, clearW_idle, clearW_exited, clearW_parked, clearW_eq_exited, clearW_eq_parked, srW, lgW, clAllW, clPreW, St.bg, onOk, onErr, selNext, afterSetErr, srAllW, nextC] <;> (try omega) <;> (try grind)
+    cases lg <;> (try simp only [St.setDone, St.setBg, ↓reduceIte, Bool.false_eq_true, Bool.and_false, Bool.and_true, Bool.false_and, Bool.true_and]) <;> (repeat' split) <;> simp_all [tot_set_eq _ _ _ _ _ hi, tot_ackWs_srw', tot_ackWs_lgw, tot_ackWs_clall, tot_ackWs_clpre, b2n_true, b2n_false, clearW_idle, clearW_exited, clearW_parked, clearW_eq_exited, clearW_eq_parked, srW, lgW, clAllW, clPreW, St.bg, onOk, onErr, selNext, afterSetErr, srAllW, nextC, roSets] <;> (try omega) <;> (try (cases hk : s.ehTok <;> cases hc0 : s.closed <;> simp_all [b2n_true, b2n_false] <;> omega)) <;> (try grind)
   | cmLockClk _ i lg hi hl =>
     clear h4
     have l0 := le_tot srW _ _ _ hi
     have l1 := le_tot lgW _ _ _ hi
     have l2 := le_tot clAllW _ _ _ hi
     have l3 := le_tot clPreW _ _ _ hi
-    cases lg <;> (try simp only [St.setDone, St.setBg, ↓reduceIte, Bool.false_eq_true, Bool.and_false, Bool.and_true, Bool.false_and, Bool.true_and]) <;> (repeat' split) <;> simp_all [tot_set_eq _ _ _ _ _ hi, tot_ackWs_srw', tot_ackWs_lgw, tot_ackWs_clall, tot_ackWs_clpre, b2n_true, b2n_false, clearW_idle, clearW_exited, clearW_parked, clearW_eq_exited, clearW_eq_parked, srW, lgW, clAllW, clPreW, St.bg, onOk, onErr, selNext, afterSetErr, srAllW, nextC] <;> (try omega) <;> (try grind)
+    cases lg <;> (try simp only [St.setDone, St.setBg, ↓reduceIte, Bool.false_eq_true, Bool.and_false, Bool.and_true, Bool.false_and, Bool.true_and]) <;> (repeat' split) <;> simp_all [tot_set_eq _ _ _ _ _ hi, tot_ackWs_srw', tot_ackWs_lgw, tot_ackWs_clall, tot_ackWs_clpre, b2n_true, b2n_false, clearW_idle, clearW_exited, clearW_parked, clearW_eq_exited, clearW_eq_parked, srW, lgW, clAllW, clPreW, St.bg, onOk, onErr, selNext, afterSetErr, srAllW, nextC, roSets] <;> (try omega) <;> (try (cases hk : s.ehTok <;> cases hc0 : s.closed <;> simp_all [b2n_true, b2n_false] <;> omega)) <;> (try grind)
   | cmTryOk _ i k lg hi =>
     clear h4
     have l0 := le_tot srW _ _ _ hi
     have l1 := le_tot lgW _ _ _ hi
     have l2 := le_tot clAllW _ _ _ hi
     have l3 := le_tot clPreW _ _ _ hi
-    cases lg <;> (try simp only [St.setDone, St.setBg, ↓reduceIte, Bool.false_eq_true, Bool.and_false, Bool.and_true, Bool.false_and, Bool.true_and]) <;> (repeat' split) <;> simp_all [tot_set_eq _ _ _ _ _ hi, tot_ackWs_srw', tot_ackWs_lgw, tot_ackWs_clall, tot_ackWs_clpre, b2n_true, b2n_false, clearW_idle, clearW_exited, clearW_parked, clearW_eq_exited, clearW_eq_parked, srW, lgW, clAllW, clPreW, St.bg, onOk, onErr, selNext, afterSetErr, srAllW, nextC] <;> (try omega) <;> (try grind)
+    cases lg <;> (try simp only [St.setDone, St.setBg, ↓reduceIte, Bool.false_eq_true, Bool.and_false, Bool.and_true, Bool.false_and, Bool.true_and]) <;> (repeat' split) <;> simp_all [tot_set_eq _ _ _ _ _ hi, tot_ackWs_srw', tot_ackWs_lgw, tot_ackWs_clall, tot_ackWs_clpre, b2n_true, b2n_false, clearW_idle, clearW_exited, clearW_parked, clearW_eq_exited, clearW_eq_parked, srW, lgW, clAllW, clPreW, St.bg, onOk, onErr, selNext, afterSetErr, srAllW, nextC, roSets] <;> (try omega) <;> (try (cases hk : s.ehTok <;> cases hc0 : s.closed <;> simp_all [b2n_true, b2n_false] <;> omega)) <;> (try grind)
   | cmTryFail _ i k lg hi =>
     clear h4
     have l0 := le_tot srW _ _ _ hi
     have l1 := le_tot lgW _ _ _ hi
     have l2 := le_tot clAllW _ _ _ hi
     have l3 := le_tot clPreW _ _ _ hi
-    cases lg <;> (try simp only [St.setDone, St.setBg, ↓reduceIte, Bool.false_eq_true, Bool.and_false, Bool.and_true, Bool.false_and, Bool.true_and]) <;> (repeat' split) <;> simp_all [tot_set_eq _ _ _ _ _ hi, tot_ackWs_srw', tot_ackWs_lgw, tot_ackWs_clall, tot_ackWs_clpre, b2n_true, b2n_false, clearW_idle, clearW_exited, clearW_parked, clearW_eq_exited, clearW_eq_parked, srW, lgW, clAllW, clPreW, St.bg, onOk, onErr, selNext, afterSetErr, srAllW, nextC] <;> (try omega) <;> (try grind)
+    cases lg <;> (try simp only [St.setDone, St.setBg, ↓reduceIte, Bool.false_eq_true, Bool.and_false, Bool.and_true, Bool.false_and, Bool.true_and]) <;> (repeat' split) <;> simp_all [tot_set_eq _ _ _ _ _ hi, tot_ackWs_srw', tot_ackWs_lgw, tot_ackWs_clall, tot_ackWs_clpre, b2n_true, b2n_false, clearW_idle, clearW_exited, clearW_parked, clearW_eq_exited, clearW_eq_parked, srW, lgW, clAllW, clPreW, St.bg, onOk, onErr, selNext, afterSetErr, srAllW, nextC, roSets] <;> (try omega) <;> (try (cases hk : s.ehTok <;> cases hc0 : s.closed <;> simp_all [b2n_true, b2n_false] <;> omega)) <;> (try grind)
   | cmSleepTimer _ i k lg hi =>
     clear h4
     have l0 := le_tot srW _ _ _ hi
     have l1 := le_tot lgW _ _ _ hi
     have l2 := le_tot clAllW _ _ _ hi
     have l3 := le_tot clPreW _ _ _ hi
-    cases lg <;> (try simp only [St.setDone, St.setBg, ↓reduceIte, Bool.false_eq_true, Bool.and_false, Bool.and_true, Bool.false_and, Bool.true_and]) <;> (repeat' split) <;> simp_all [tot_set_eq _ _ _ _ _ hi, tot_ackWs_srw', tot_ackWs_lgw, tot_ackWs_clall, tot_ackWs_clpre, b2n_true, b2n_false, clearW_idle, clearW_exited, clearW_parked, clearW_eq_exited, clearW_eq_parked, srW, lgW, clAllW, clPreW, St.bg, onOk, onErr, selNext, afterSetErr, srAllW, nextC] <;> (try omega) <;> (try grind)
+    cases lg <;> (try simp only [St.setDone, St.setBg, ↓reduceIte, Bool.false_eq_true, Bool.and_false, Bool.and_true, Bool.false_and, Bool.true_and]) <;> (repeat' split) <;> simp_all [tot_set_eq _ _ _ _ _ hi, tot_ackWs_srw', tot_ackWs_lgw, tot_ackWs_clall, tot_ackWs_clpre, b2n_true, b2n_false, clearW_idle, clearW_exited, clearW_parked, clearW_eq_exited, clearW_eq_parked, srW, lgW, clAllW, clPreW, St.bg, onOk, onErr, selNext, afterSetErr, srAllW, nextC, roSets] <;> (try omega) <;> (try (cases hk : s.ehTok <;> cases hc0 : s.closed <;> simp_all [b2n_true, b2n_false] <;> omega)) <;> (try grind)
   | cmSleepClosed _ i k lg hi hc =>
     clear h4
     have l0 := le_tot srW _ _ _ hi
     have l1 := le_tot lgW _ _ _ hi
     have l2 := le_tot clAllW _ _ _ hi
     have l3 := le_tot clPreW _ _ _ hi
-    cases lg <;> (try simp only [St.setDone, St.setBg, ↓reduceIte, Bool.false_eq_true, Bool.and_false, Bool.and_true, Bool.false_and, Bool.true_and]) <;> (repeat' split) <;> simp_all [tot_set_eq _ _ _ _ _ hi, tot_ackWs_srw', tot_ackWs_lgw, tot_ackWs_clall, tot_ackWs_clpre, b2n_true, b2n_false, clearW_idle, clearW_exited, clearW_parked, clearW_eq_exited, clearW_eq_parked, srW, lgW, clAllW, clPreW, St.bg, onOk, onErr, selNext, afterSetErr, srAllW, nextC] <;> (try omega) <;> (try grind)
+    cases lg <;> (try simp only [St.setDone, St.setBg, ↓reduceIte, Bool.false_eq_true, Bool.and_false, Bool.and_true, Bool.false_and, Bool.true_and]) <;> (repeat' split) <;> simp_all [tot_set_eq _ _ _ _ _ hi, tot_ackWs_srw', tot_ackWs_lgw, tot_ackWs_clall, tot_ackWs_clpre, b2n_true, b2n_false, clearW_idle, clearW_exited, clearW_parked, clearW_eq_exited, clearW_eq_parked, srW, lgW, clAllW, clPreW, St.bg, onOk, onErr, selNext, afterSetErr, srAllW, nextC, roSets] <;> (try omega) <;> (try (cases hk : s.ehTok <;> cases hc0 : s.closed <;> simp_all [b2n_true, b2n_false] <;> omega)) <;> (try grind)
   | cmFail3 _ i lg hi =>
     clear h4
     have l0 := le_tot srW _ _ _ hi
     have l1 := le_tot lgW _ _ _ hi
     have l2 := le_tot clAllW _ _ _ hi
     have l3 := le_tot clPreW _ _ _ hi
-    cases lg <;> (try simp only [St.setDone, St.setBg, ↓reduceIte, Bool.false_eq_true, Bool.and_false, Bool.and_true, Bool.false_and, Bool.true_and]) <;> (repeat' split) <;> simp_all [tot_set_eq _ _ _ _ _ hi, tot_ackWs_srw', tot_ackWs_lgw, tot_ackWs_clall, tot_ackWs_clpre, b2n_true, b2n_false, clearW_idle, clearW_exited, clearW_parked, clearW_eq_exited, clearW_eq_parked, srW, lgW, clAllW, clPreW, St.bg, onOk, onErr, selNext, afterSetErr, srAllW, nextC] <;> (try omega) <;> (try grind)
+    cases lg <;> (try simp only [St.setDone, St.setBg, ↓reduceIte, Bool.false_eq_true, Bool.and_false, Bool.and_true, Bool.false_and, Bool.true_and]) <;> (repeat' split) <;> simp_all [tot_set_eq _ _ _ _ _ hi, tot_ackWs_srw', tot_ackWs_lgw, tot_ackWs_clall, tot_ackWs_clpre, b2n_true, b2n_false, clearW_idle, clearW_exited, clearW_parked, clearW_eq_exited, clearW_eq_parked, srW, lgW, clAllW, clPreW, St.bg, onOk, onErr, selNext, afterSetErr, srAllW, nextC, roSets] <;> (try omega) <;> (try (cases hk : s.ehTok <;> cases hc0 : s.closed <;> simp_all [b2n_true, b2n_false] <;> omega)) <;> (try grind)
   | cmAfterOk _ i lg hi =>
     clear h4
     have l0 := le_tot srW _ _ _ hi
     have l1 := le_tot lgW _ _ _ hi
     have l2 := le_tot clAllW _ _ _ hi
     have l3 := le_tot clPreW _ _ _ hi
-    cases lg <;> (try simp only [St.setDone, St.setBg, ↓reduceIte, Bool.false_eq_true, Bool.and_false, Bool.and_true, Bool.false_and, Bool.true_and]) <;> (repeat' split) <;> simp_all [tot_set_eq _ _ _ _ _ hi, tot_ackWs_srw', tot_ackWs_lgw, tot_ackWs_clall, tot_ackWs_clpre, b2n_true, b2n_false, clearW_idle, clearW_exited, clearW_parked, clearW_eq_exited, clearW_eq_parked, srW, lgW, clAllW, clPreW, St.bg, onOk, onErr, selNext, afterSetErr, srAllW, nextC] <;> (try omega) <;> (try grind)
+    cases lg <;> (try simp only [St.setDone, St.setBg, ↓reduceIte, Bool.false_eq_true, Bool.and_false, Bool.and_true, Bool.false_and, Bool.true_and]) <;> (repeat' split) <;> simp_all [tot_set_eq _ _ _ _ _ hi, tot_ackWs_srw', tot_ackWs_lgw, tot_ackWs_clall, tot_ackWs_clpre, b2n_true, b2n_false, clearW_idle, clearW_exited, clearW_parked, clearW_eq_exited, clearW_eq_parked, srW, lgW, clAllW, clPreW, St.bg, onOk, onErr, selNext, afterSetErr, srAllW, nextC, roSets] <;> (try omega) <;> (try (cases hk : s.ehTok <;> cases hc0 : s.closed <;> simp_all [b2n_true, b2n_false] <;> omega)) <;> (try grind)
   | cmNoWaitComp _ i lg hi =>
     clear h4
     have l0 := le_tot srW _ _ _ hi
     have l1 := le_tot lgW _ _ _ hi
     have l2 := le_tot clAllW _ _ _ hi
     have l3 := le_tot clPreW _ _ _ hi
-    cases lg <;> (try simp only [St.setDone, St.setBg, ↓reduceIte, Bool.false_eq_true, Bool.and_false, Bool.and_true, Bool.false_and, Bool.true_and]) <;> (repeat' split) <;> simp_all [tot_set_eq _ _ _ _ _ hi, tot_ackWs_srw', tot_ackWs_lgw, tot_ackWs_clall, tot_ackWs_clpre, b2n_true, b2n_false, clearW_idle, clearW_exited, clearW_parked, clearW_eq_exited, clearW_eq_parked, srW, lgW, clAllW, clPreW, St.bg, onOk, onErr, selNext, afterSetErr, srAllW, nextC] <;> (try omega) <;> (try grind)
+    cases lg <;> (try simp only [St.setDone, St.setBg, ↓reduceIte, Bool.false_eq_true, Bool.and_false, Bool.and_true, Bool.false_and, Bool.true_and]) <;> (repeat' split) <;> simp_all [tot_set_eq _ _ _ _ _ hi, tot_ackWs_srw', tot_ackWs_lgw, tot_ackWs_clall, tot_ackWs_clpre, b2n_true, b2n_false, clearW_idle, clearW_exited, clearW_parked, clearW_eq_exited, clearW_eq_parked, srW, lgW, clAllW, clPreW, St.bg, onOk, onErr, selNext, afterSetErr, srAllW, nextC, roSets] <;> (try omega) <;> (try (cases hk : s.ehTok <;> cases hc0 : s.closed <;> simp_all [b2n_true, b2n_false] <;> omega)) <;> (try grind)
   | cmWaitComp _ i lg hi =>
     clear h4
     have l0 := le_tot srW _ _ _ hi
     have l1 := le_tot lgW _ _ _ hi
     have l2 := le_tot clAllW _ _ _ hi
     have l3 := le_tot clPreW _ _ _ hi
-    cases lg <;> (try simp only [St.setDone, St.setBg, ↓reduceIte, Bool.false_eq_true, Bool.and_false, Bool.and_true, Bool.false_and, Bool.true_and]) <;> (repeat' split) <;> simp_all [tot_set_eq _ _ _ _ _ hi, tot_ackWs_srw', tot_ackWs_lgw, tot_ackWs_clall, tot_ackWs_clpre, b2n_true, b2n_false, clearW_idle, clearW_exited, clearW_parked, clearW_eq_exited, clearW_eq_parked, srW, lgW, clAllW, clPreW, St.bg, onOk, onErr, selNext, afterSetErr, srAllW, nextC] <;> (try omega) <;> (try grind)
+    cases lg <;> (try simp only [St.setDone, St.setBg, ↓reduceIte, Bool.false_eq_true, Bool.and_false, Bool.and_true, Bool.false_and, Bool.true_and]) <;> (repeat' split) <;> simp_all [tot_set_eq _ _ _ _ _ hi, tot_ackWs_srw', tot_ackWs_lgw, tot_ackWs_clall, tot_ackWs_clpre, b2n_true, b2n_false, clearW_idle, clearW_exited, clearW_parked, clearW_eq_exited, clearW_eq_parked, srW, lgW, clAllW, clPreW, St.bg, onOk, onErr, selNext, afterSetErr, srAllW, nextC, roSets] <;> (try omega) <;> (try (cases hk : s.ehTok <;> cases hc0 : s.closed <;> simp_all [b2n_true, b2n_false] <;> omega)) <;> (try grind)
   | cmDone _ i lg hi =>
     clear h4
     have l0 := le_tot srW _ _ _ hi
     have l1 := le_tot lgW _ _ _ hi
     have l2 := le_tot clAllW _ _ _ hi
     have l3 := le_tot clPreW _ _ _ hi
-    cases lg <;> (try simp only [St.setDone, St.setBg, ↓reduceIte, Bool.false_eq_true, Bool.and_false, Bool.and_true, Bool.false_and, Bool.true_and]) <;> (repeat' split) <;> simp_all [tot_set_eq _ _ _ _ _ hi, tot_ackWs_srw', tot_ackWs_lgw, tot_ackWs_clall, tot_ackWs_clpre, b2n_true, b2n_false, clearW_idle, clearW_exited, clearW_parked, clearW_eq_exited, clearW_eq_parked, srW, lgW, clAllW, clPreW, St.bg, onOk, onErr, selNext, afterSetErr, srAllW, nextC] <;> (try omega) <;> (try grind)
+    cases lg <;> (try simp only [St.setDone, St.setBg, ↓reduceIte, Bool.false_eq_true, Bool.and_false, Bool.and_true, Bool.false_and, Bool.true_and]) <;> (repeat' split) <;> simp_all [tot_set_eq _ _ _ _ _ hi, tot_ackWs_srw', tot_ackWs_lgw, tot_ackWs_clall, tot_ackWs_clpre, b2n_true, b2n_false, clearW_idle, clearW_exited, clearW_parked, clearW_eq_exited, clearW_eq_parked, srW, lgW, clAllW, clPreW, St.bg, onOk, onErr, selNext, afterSetErr, srAllW, nextC, roSets] <;> (try omega) <;> (try (cases hk : s.ehTok <;> cases hc0 : s.closed <;> simp_all [b2n_true, b2n_false] <;> omega)) <;> (try grind)
   | cmRet _ i ok lg hi =>
     clear h4
     have l0 := le_tot srW _ _ _ hi
     have l1 := le_tot lgW _ _ _ hi
     have l2 := le_tot clAllW _ _ _ hi
     have l3 := le_tot clPreW _ _ _ hi
-    cases ok <;> cases lg <;> (try simp only [St.setDone, St.setBg, ↓reduceIte, Bool.false_eq_true, Bool.and_false, Bool.and_true, Bool.false_and, Bool.true_and]) <;> (repeat' split) <;> simp_all [tot_set_eq _ _ _ _ _ hi, tot_ackWs_srw', tot_ackWs_lgw, tot_ackWs_clall, tot_ackWs_clpre, b2n_true, b2n_false, clearW_idle, clearW_exited, clearW_parked, clearW_eq_exited, clearW_eq_parked, srW, lgW, clAllW, clPreW, St.bg, onOk, onErr, selNext, afterSetErr, srAllW, nextC] <;> (try omega) <;> (try grind)
+    cases ok <;> cases lg <;> (try simp only [St.setDone, St.setBg, ↓reduceIte, Bool.false_eq_true, Bool.and_false, Bool.and_true, Bool.false_and, Bool.true_and]) <;> (repeat' split) <;> simp_all [tot_set_eq _ _ _ _ _ hi, tot_ackWs_srw', tot_ackWs_lgw, tot_ackWs_clall, tot_ackWs_clpre, b2n_true, b2n_false, clearW_idle, clearW_exited, clearW_parked, clearW_eq_exited, clearW_eq_parked, srW, lgW, clAllW, clPreW, St.bg, onOk, onErr, selNext, afterSetErr, srAllW, nextC, roSets] <;> (try omega) <;> (try (cases hk : s.ehTok <;> cases hc0 : s.closed <;> simp_all [b2n_true, b2n_false] <;> omega)) <;> (try grind)
   | dcLockTr _ i lg hi hl =>
     clear h4
     have l0 := le_tot srW _ _ _ hi
     have l1 := le_tot lgW _ _ _ hi
     have l2 := le_tot clAllW _ _ _ hi
     have l3 := le_tot clPreW _ _ _ hi
-    cases lg <;> (try simp only [St.setDone, St.setBg, ↓reduceIte, Bool.false_eq_true, Bool.and_false, Bool.and_true, Bool.false_and, Bool.true_and]) <;> (repeat' split) <;> simp_all [tot_set_eq _ _ _ _ _ hi, tot_ackWs_srw', tot_ackWs_lgw, tot_ackWs_clall, tot_ackWs_clpre, b2n_true, b2n_false, clearW_idle, clearW_exited, clearW_parked, clearW_eq_exited, clearW_eq_parked, srW, lgW, clAllW, clPreW, St.bg, onOk, onErr, selNext, afterSetErr, srAllW, nextC] <;> (try omega) <;> (try grind)
+    cases lg <;> (try simp only [St.setDone, St.setBg, ↓reduceIte, Bool.false_eq_true, Bool.and_false, Bool.and_true, Bool.false_and, Bool.true_and]) <;> (repeat' split) <;> simp_all [tot_set_eq _ _ _ _ _ hi, tot_ackWs_srw', tot_ackWs_lgw, tot_ackWs_clall, tot_ackWs_clpre, b2n_true, b2n_false, clearW_idle, clearW_exited, clearW_parked, clearW_eq_exited, clearW_eq_parked, srW, lgW, clAllW, clPreW, St.bg, onOk, onErr, selNext, afterSetErr, srAllW, nextC, roSets] <;> (try omega) <;> (try (cases hk : s.ehTok <;> cases hc0 : s.closed <;> simp_all [b2n_true, b2n_false] <;> omega)) <;> (try grind)
   | dcBody _ i lg hi =>
     clear h4
     have l0 := le_tot srW _ _ _ hi
     have l1 := le_tot lgW _ _ _ hi
     have l2 := le_tot clAllW _ _ _ hi
     have l3 := le_tot clPreW _ _ _ hi
-    cases lg <;> (try simp only [St.setDone, St.setBg, ↓reduceIte, Bool.false_eq_true, Bool.and_false, Bool.and_true, Bool.false_and, Bool.true_and]) <;> (repeat' split) <;> simp_all [tot_set_eq _ _ _ _ _ hi, tot_ackWs_srw', tot_ackWs_lgw, tot_ackWs_clall, tot_ackWs_clpre, b2n_true, b2n_false, clearW_idle, clearW_exited, clearW_parked, clearW_eq_exited, clearW_eq_parked, srW, lgW, clAllW, clPreW, St.bg, onOk, onErr, selNext, afterSetErr, srAllW, nextC] <;> (try omega) <;> (try grind)
+    cases lg <;> (try simp only [St.setDone, St.setBg, ↓reduceIte, Bool.false_eq_true, Bool.and_false, Bool.and_true, Bool.false_and, Bool.true_and]) <;> (repeat' split) <;> simp_all [tot_set_eq _ _ _ _ _ hi, tot_ackWs_srw', tot_ackWs_lgw, tot_ackWs_clall, tot_ackWs_clpre, b2n_true, b2n_false, clearW_idle, clearW_exited, clearW_parked, clearW_eq_exited, clearW_eq_parked, srW, lgW, clAllW, clPreW, St.bg, onOk, onErr, selNext, afterSetErr, srAllW, nextC, roSets] <;> (try omega) <;> (try (cases hk : s.ehTok <;> cases hc0 : s.closed <;> simp_all [b2n_true, b2n_false] <;> omega)) <;> (try grind)
   | crNoOverlap _ i hi =>
     clear h4
     have l0 := le_tot srW _ _ _ hi
     have l1 := le_tot lgW _ _ _ hi
     have l2 := le_tot clAllW _ _ _ hi
     have l3 := le_tot clPreW _ _ _ hi
-    (try simp only [St.setDone, St.setBg, ↓reduceIte, Bool.false_eq_true, Bool.and_false, Bool.and_true, Bool.false_and, Bool.true_and]) <;> (repeat' split) <;> simp_all [tot_set_eq _ _ _ _ _ hi, tot_ackWs_srw', tot_ackWs_lgw, tot_ackWs_clall, tot_ackWs_clpre, b2n_true, b2n_false, clearW_idle, clearW_exited, clearW_parked, clearW_eq_exited, clearW_eq_parked, srW, lgW, clAllW, clPreW, St.bg, onOk, onErr, selNext, afterSetErr, srAllW, nextC] <;> (try omega) <;> (try grind)
+    (try simp only [St.setDone, St.setBg, ↓reduceIte, Bool.false_eq_true, Bool.and_false, Bool.and_true, Bool.false_and, Bool.true_and]) <;> (repeat' split) <;> simp_all [tot_set_eq _ _ _ _ _ hi, tot_ackWs_srw', tot_ackWs_lgw, tot_ackWs_clall, tot_ackWs_clpre, b2n_true, b2n_false, clearW_idle, clearW_exited, clearW_parked, clearW_eq_exited, clearW_eq_parked, srW, lgW, clAllW, clPreW, St.bg, onOk, onErr, selNext, afterSetErr, srAllW, nextC, roSets] <;> (try omega) <;> (try (cases hk : s.ehTok <;> cases hc0 : s.closed <;> simp_all [b2n_true, b2n_false] <;> omega)) <;> (try grind)
   | crOverlap _ i hi =>
     clear h4
     have l0 := le_tot srW _ _ _ hi
     have l1 := le_tot lgW _ _ _ hi
     have l2 := le_tot clAllW _ _ _ hi
     have l3 := le_tot clPreW _ _ _ hi
-    (try simp only [St.setDone, St.setBg, ↓reduceIte, Bool.false_eq_true, Bool.and_false, Bool.and_true, Bool.false_and, Bool.true_and]) <;> (repeat' split) <;> simp_all [tot_set_eq _ _ _ _ _ hi, tot_ackWs_srw', tot_ackWs_lgw, tot_ackWs_clall, tot_ackWs_clpre, b2n_true, b2n_false, clearW_idle, clearW_exited, clearW_parked, clearW_eq_exited, clearW_eq_parked, srW, lgW, clAllW, clPreW, St.bg, onOk, onErr, selNext, afterSetErr, srAllW, nextC] <;> (try omega) <;> (try grind)
+    (try simp only [St.setDone, St.setBg, ↓reduceIte, Bool.false_eq_true, Bool.and_false, Bool.and_true, Bool.false_and, Bool.true_and]) <;> (repeat' split) <;> simp_all [tot_set_eq _ _ _ _ _ hi, tot_ackWs_srw', tot_ackWs_lgw, tot_ackWs_clall, tot_ackWs_clpre, b2n_true, b2n_false, clearW_idle, clearW_exited, clearW_parked, clearW_eq_exited, clearW_eq_parked, srW, lgW, clAllW, clPreW, St.bg, onOk, onErr, selNext, afterSetErr, srAllW, nextC, roSets] <;> (try omega) <;> (try (cases hk : s.ehTok <;> cases hc0 : s.closed <;> simp_all [b2n_true, b2n_false] <;> omega)) <;> (try grind)
   | crNewMemOk _ i hi =>
     clear h4
     have l0 := le_tot srW _ _ _ hi
     have l1 := le_tot lgW _ _ _ hi
     have l2 := le_tot clAllW _ _ _ hi
     have l3 := le_tot clPreW _ _ _ hi
-    (try simp only [St.setDone, St.setBg, ↓reduceIte, Bool.false_eq_true, Bool.and_false, Bool.and_true, Bool.false_and, Bool.true_and]) <;> (repeat' split) <;> simp_all [tot_set_eq _ _ _ _ _ hi, tot_ackWs_srw', tot_ackWs_lgw, tot_ackWs_clall, tot_ackWs_clpre, b2n_true, b2n_false, clearW_idle, clearW_exited, clearW_parked, clearW_eq_exited, clearW_eq_parked, srW, lgW, clAllW, clPreW, St.bg, onOk, onErr, selNext, afterSetErr, srAllW, nextC] <;> (try omega) <;> (try grind)
+    (try simp only [St.setDone, St.setBg, ↓reduceIte, Bool.false_eq_true, Bool.and_false, Bool.and_true, Bool.false_and, Bool.true_and]) <;> (repeat' split) <;> simp_all [tot_set_eq _ _ _ _ _ hi, tot_ackWs_srw', tot_ackWs_lgw, tot_ackWs_clall, tot_ackWs_clpre, b2n_true, b2n_false, clearW_idle, clearW_exited, clearW_parked, clearW_eq_exited, clearW_eq_parked, srW, lgW, clAllW, clPreW, St.bg, onOk, onErr, selNext, afterSetErr, srAllW, nextC, roSets] <;> (try omega) <;> (try (cases hk : s.ehTok <;> cases hc0 : s.closed <;> simp_all [b2n_true, b2n_false] <;> omega)) <;> (try grind)
   | crNewMemFail _ i hi =>
     clear h4
     have l0 := le_tot srW _ _ _ hi
     have l1 := le_tot lgW _ _ _ hi
     have l2 := le_tot clAllW _ _ _ hi
     have l3 := le_tot clPreW _ _ _ hi
-    (try simp only [St.setDone, St.setBg, ↓reduceIte, Bool.false_eq_true, Bool.and_false, Bool.and_true, Bool.false_and, Bool.true_and]) <;> (repeat' split) <;> simp_all [tot_set_eq _ _ _ _ _ hi, tot_ackWs_srw', tot_ackWs_lgw, tot_ackWs_clall, tot_ackWs_clpre, b2n_true, b2n_false, clearW_idle, clearW_exited, clearW_parked, clearW_eq_exited, clearW_eq_parked, srW, lgW, clAllW, clPreW, St.bg, onOk, onErr, selNext, afterSetErr, srAllW, nextC] <;> (try omega) <;> (try grind)
+    (try simp only [St.setDone, St.setBg, ↓reduceIte, Bool.false_eq_true, Bool.and_false, Bool.and_true, Bool.false_and, Bool.true_and]) <;> (repeat' split) <;> simp_all [tot_set_eq _ _ _ _ _ hi, tot_ackWs_srw', tot_ackWs_lgw, tot_ackWs_clall, tot_ackWs_clpre, b2n_true, b2n_false, clearW_idle, clearW_exited, clearW_parked, clearW_eq_exited, clearW_eq_parked, srW, lgW, clAllW, clPreW, St.bg, onOk, onErr, selNext, afterSetErr, srAllW, nextC, roSets] <;> (try omega) <;> (try (cases hk : s.ehTok <;> cases hc0 : s.closed <;> simp_all [b2n_true, b2n_false] <;> omega)) <;> (try grind)
   | crRelM _ i hi =>
     clear h4
     have l0 := le_tot srW _ _ _ hi
     have l1 := le_tot lgW _ _ _ hi
     have l2 := le_tot clAllW _ _ _ hi
     have l3 := le_tot clPreW _ _ _ hi
-    (try simp only [St.setDone, St.setBg, ↓reduceIte, Bool.false_eq_true, Bool.and_false, Bool.and_true, Bool.false_and, Bool.true_and]) <;> (repeat' split) <;> simp_all [tot_set_eq _ _ _ _ _ hi, tot_ackWs_srw', tot_ackWs_lgw, tot_ackWs_clall, tot_ackWs_clpre, b2n_true, b2n_false, clearW_idle, clearW_exited, clearW_parked, clearW_eq_exited, clearW_eq_parked, srW, lgW, clAllW, clPreW, St.bg, onOk, onErr, selNext, afterSetErr, srAllW, nextC] <;> (try omega) <;> (try grind)
+    (try simp only [St.setDone, St.setBg, ↓reduceIte, Bool.false_eq_true, Bool.and_false, Bool.and_true, Bool.false_and, Bool.true_and]) <;> (repeat' split) <;> simp_all [tot_set_eq _ _ _ _ _ hi, tot_ackWs_srw', tot_ackWs_lgw, tot_ackWs_clall, tot_ackWs_clpre, b2n_true, b2n_false, clearW_idle, clearW_exited, clearW_parked, clearW_eq_exited, clearW_eq_parked, srW, lgW, clAllW, clPreW, St.bg, onOk, onErr, selNext, afterSetErr, srAllW, nextC, roSets] <;> (try omega) <;> (try (cases hk : s.ehTok <;> cases hc0 : s.closed <;> simp_all [b2n_true, b2n_false] <;> omega)) <;> (try grind)
   | crRelOk _ i hi =>
     clear h4
     have l0 := le_tot srW _ _ _ hi
     have l1 := le_tot lgW _ _ _ hi
     have l2 := le_tot clAllW _ _ _ hi
     have l3 := le_tot clPreW _ _ _ hi
-    (try simp only [St.setDone, St.setBg, ↓reduceIte, Bool.false_eq_true, Bool.and_false, Bool.and_true, Bool.false_and, Bool.true_and]) <;> (repeat' split) <;> simp_all [tot_set_eq _ _ _ _ _ hi, tot_ackWs_srw', tot_ackWs_lgw, tot_ackWs_clall, tot_ackWs_clpre, b2n_true, b2n_false, clearW_idle, clearW_exited, clearW_parked, clearW_eq_exited, clearW_eq_parked, srW, lgW, clAllW, clPreW, St.bg, onOk, onErr, selNext, afterSetErr, srAllW, nextC] <;> (try omega) <;> (try grind)
+    (try simp only [St.setDone, St.setBg, ↓reduceIte, Bool.false_eq_true, Bool.and_false, Bool.and_true, Bool.false_and, Bool.true_and]) <;> (repeat' split) <;> simp_all [tot_set_eq _ _ _ _ _ hi, tot_ackWs_srw', tot_ackWs_lgw, tot_ackWs_clall, tot_ackWs_clpre, b2n_true, b2n_false, clearW_idle, clearW_exited, clearW_parked, clearW_eq_exited, clearW_eq_parked, srW, lgW, clAllW, clPreW, St.bg, onOk, onErr, selNext, afterSetErr, srAllW, nextC, roSets] <;> (try omega) <;> (try (cases hk : s.ehTok <;> cases hc0 : s.closed <;> simp_all [b2n_true, b2n_false] <;> omega)) <;> (try grind)
   | crRelFail _ i hi =>
     clear h4
     have l0 := le_tot srW _ _ _ hi
     have l1 := le_tot lgW _ _ _ hi
     have l2 := le_tot clAllW _ _ _ hi
     have l3 := le_tot clPreW _ _ _ hi
-    (try simp only [St.setDone, St.setBg, ↓reduceIte, Bool.false_eq_true, Bool.and_false, Bool.and_true, Bool.false_and, Bool.true_and]) <;> (repeat' split) <;> simp_all [tot_set_eq _ _ _ _ _ hi, tot_ackWs_srw', tot_ackWs_lgw, tot_ackWs_clall, tot_ackWs_clpre, b2n_true, b2n_false, clearW_idle, clearW_exited, clearW_parked, clearW_eq_exited, clearW_eq_parked, srW, lgW, clAllW, clPreW, St.bg, onOk, onErr, selNext, afterSetErr, srAllW, nextC] <;> (try omega) <;> (try grind)
+    (try simp only [St.setDone, St.setBg, ↓reduceIte, Bool.false_eq_true, Bool.and_false, Bool.and_true, Bool.false_and, Bool.true_and]) <;> (repeat' split) <;> simp_all [tot_set_eq _ _ _ _ _ hi, tot_ackWs_srw', tot_ackWs_lgw, tot_ackWs_clall, tot_ackWs_clpre, b2n_true, b2n_false, clearW_idle, clearW_exited, clearW_parked, clearW_eq_exited, clearW_eq_parked, srW, lgW, clAllW, clPreW, St.bg, onOk, onErr, selNext, afterSetErr, srAllW, nextC, roSets] <;> (try omega) <;> (try (cases hk : s.ehTok <;> cases hc0 : s.closed <;> simp_all [b2n_true, b2n_false] <;> omega)) <;> (try grind)
   | srSend _ i hi he =>
     clear h4
     have l0 := le_tot srW _ _ _ hi
@@ -406,113 +410,113 @@ theorem step_pinvE (s t : St) (f : Bool) (cfg : Cfg) (hfx : Fixed3 cfg) (hm : cf
     have l2 := le_tot clAllW _ _ _ hi
     have l3 := le_tot clPreW _ _ _ hi
     simp only [hm, recvs_asCoded] at he
-    rcases he with he | he <;> (try simp only [St.setDone, St.setBg, ↓reduceIte, Bool.false_eq_true, Bool.and_false, Bool.and_true, Bool.false_and, Bool.true_and]) <;> (repeat' split) <;> simp_all [tot_set_eq _ _ _ _ _ hi, tot_ackWs_srw', tot_ackWs_lgw, tot_ackWs_clall, tot_ackWs_clpre, b2n_true, b2n_false, clearW_idle, clearW_exited, clearW_parked, clearW_eq_exited, clearW_eq_parked, srW, lgW, clAllW, clPreW, St.bg, onOk, onErr, selNext, afterSetErr, srAllW, nextC] <;> (try omega) <;> (try grind)
+    rcases he with he | he <;> (try simp only [St.setDone, St.setBg, ↓reduceIte, Bool.false_eq_true, Bool.and_false, Bool.and_true, Bool.false_and, Bool.true_and]) <;> (repeat' split) <;> simp_all [tot_set_eq _ _ _ _ _ hi, tot_ackWs_srw', tot_ackWs_lgw, tot_ackWs_clall, tot_ackWs_clpre, b2n_true, b2n_false, clearW_idle, clearW_exited, clearW_parked, clearW_eq_exited, clearW_eq_parked, srW, lgW, clAllW, clPreW, St.bg, onOk, onErr, selNext, afterSetErr, srAllW, nextC, roSets] <;> (try omega) <;> (try (cases hk : s.ehTok <;> cases hc0 : s.closed <;> simp_all [b2n_true, b2n_false] <;> omega)) <;> (try grind)
   | srPerErr _ i hi he =>
     clear h4
     have l0 := le_tot srW _ _ _ hi
     have l1 := le_tot lgW _ _ _ hi
     have l2 := le_tot clAllW _ _ _ hi
     have l3 := le_tot clPreW _ _ _ hi
-    (try simp only [St.setDone, St.setBg, ↓reduceIte, Bool.false_eq_true, Bool.and_false, Bool.and_true, Bool.false_and, Bool.true_and]) <;> (repeat' split) <;> simp_all [tot_set_eq _ _ _ _ _ hi, tot_ackWs_srw', tot_ackWs_lgw, tot_ackWs_clall, tot_ackWs_clpre, b2n_true, b2n_false, clearW_idle, clearW_exited, clearW_parked, clearW_eq_exited, clearW_eq_parked, srW, lgW, clAllW, clPreW, St.bg, onOk, onErr, selNext, afterSetErr, srAllW, nextC] <;> (try omega) <;> (try grind)
+    (try simp only [St.setDone, St.setBg, ↓reduceIte, Bool.false_eq_true, Bool.and_false, Bool.and_true, Bool.false_and, Bool.true_and]) <;> (repeat' split) <;> simp_all [tot_set_eq _ _ _ _ _ hi, tot_ackWs_srw', tot_ackWs_lgw, tot_ackWs_clall, tot_ackWs_clpre, b2n_true, b2n_false, clearW_idle, clearW_exited, clearW_parked, clearW_eq_exited, clearW_eq_parked, srW, lgW, clAllW, clPreW, St.bg, onOk, onErr, selNext, afterSetErr, srAllW, nextC, roSets] <;> (try omega) <;> (try (cases hk : s.ehTok <;> cases hc0 : s.closed <;> simp_all [b2n_true, b2n_false] <;> omega)) <;> (try grind)
   | srClosed _ i hi hc =>
     have l0 := le_tot srW _ _ _ hi
     have l1 := le_tot lgW _ _ _ hi
     have l2 := le_tot clAllW _ _ _ hi
     have l3 := le_tot clPreW _ _ _ hi
     have ls := le_tot srAllW _ _ _ hi
-    rcases h4 with h4 | ⟨_, h4⟩ <;> (try simp only [St.setDone, St.setBg, ↓reduceIte, Bool.false_eq_true, Bool.and_false, Bool.and_true, Bool.false_and, Bool.true_and]) <;> (repeat' split) <;> simp_all [tot_set_eq _ _ _ _ _ hi, tot_ackWs_srw', tot_ackWs_lgw, tot_ackWs_clall, tot_ackWs_clpre, b2n_true, b2n_false, clearW_idle, clearW_exited, clearW_parked, clearW_eq_exited, clearW_eq_parked, srW, lgW, clAllW, clPreW, St.bg, onOk, onErr, selNext, afterSetErr, srAllW, nextC] <;> (try omega) <;> (try grind)
+    rcases h4 with h4 | ⟨_, h4⟩ <;> (try simp only [St.setDone, St.setBg, ↓reduceIte, Bool.false_eq_true, Bool.and_false, Bool.and_true, Bool.false_and, Bool.true_and]) <;> (repeat' split) <;> simp_all [tot_set_eq _ _ _ _ _ hi, tot_ackWs_srw', tot_ackWs_lgw, tot_ackWs_clall, tot_ackWs_clpre, b2n_true, b2n_false, clearW_idle, clearW_exited, clearW_parked, clearW_eq_exited, clearW_eq_parked, srW, lgW, clAllW, clPreW, St.bg, onOk, onErr, selNext, afterSetErr, srAllW, nextC, roSets] <;> (try omega) <;> (try (cases hk : s.ehTok <;> cases hc0 : s.closed <;> simp_all [b2n_true, b2n_false] <;> omega)) <;> (try grind)
   | clCheckTr _ i hi =>
     clear h4
     have l0 := le_tot srW _ _ _ hi
     have l1 := le_tot lgW _ _ _ hi
     have l2 := le_tot clAllW _ _ _ hi
     have l3 := le_tot clPreW _ _ _ hi
-    (try simp only [St.setDone, St.setBg, ↓reduceIte, Bool.false_eq_true, Bool.and_false, Bool.and_true, Bool.false_and, Bool.true_and]) <;> (repeat' split) <;> simp_all [tot_set_eq _ _ _ _ _ hi, tot_ackWs_srw', tot_ackWs_lgw, tot_ackWs_clall, tot_ackWs_clpre, b2n_true, b2n_false, clearW_idle, clearW_exited, clearW_parked, clearW_eq_exited, clearW_eq_parked, srW, lgW, clAllW, clPreW, St.bg, onOk, onErr, selNext, afterSetErr, srAllW, nextC] <;> (try omega) <;> (try grind)
+    (try simp only [St.setDone, St.setBg, ↓reduceIte, Bool.false_eq_true, Bool.and_false, Bool.and_true, Bool.false_and, Bool.true_and]) <;> (repeat' split) <;> simp_all [tot_set_eq _ _ _ _ _ hi, tot_ackWs_srw', tot_ackWs_lgw, tot_ackWs_clall, tot_ackWs_clpre, b2n_true, b2n_false, clearW_idle, clearW_exited, clearW_parked, clearW_eq_exited, clearW_eq_parked, srW, lgW, clAllW, clPreW, St.bg, onOk, onErr, selNext, afterSetErr, srAllW, nextC, roSets] <;> (try omega) <;> (try (cases hk : s.ehTok <;> cases hc0 : s.closed <;> simp_all [b2n_true, b2n_false] <;> omega)) <;> (try grind)
   | clLockTr _ i hi hl =>
     clear h4
     have l0 := le_tot srW _ _ _ hi
     have l1 := le_tot lgW _ _ _ hi
     have l2 := le_tot clAllW _ _ _ hi
     have l3 := le_tot clPreW _ _ _ hi
-    (try simp only [St.setDone, St.setBg, ↓reduceIte, Bool.false_eq_true, Bool.and_false, Bool.and_true, Bool.false_and, Bool.true_and]) <;> (repeat' split) <;> simp_all [tot_set_eq _ _ _ _ _ hi, tot_ackWs_srw', tot_ackWs_lgw, tot_ackWs_clall, tot_ackWs_clpre, b2n_true, b2n_false, clearW_idle, clearW_exited, clearW_parked, clearW_eq_exited, clearW_eq_parked, srW, lgW, clAllW, clPreW, St.bg, onOk, onErr, selNext, afterSetErr, srAllW, nextC] <;> (try omega) <;> (try grind)
+    (try simp only [St.setDone, St.setBg, ↓reduceIte, Bool.false_eq_true, Bool.and_false, Bool.and_true, Bool.false_and, Bool.true_and]) <;> (repeat' split) <;> simp_all [tot_set_eq _ _ _ _ _ hi, tot_ackWs_srw', tot_ackWs_lgw, tot_ackWs_clall, tot_ackWs_clpre, b2n_true, b2n_false, clearW_idle, clearW_exited, clearW_parked, clearW_eq_exited, clearW_eq_parked, srW, lgW, clAllW, clPreW, St.bg, onOk, onErr, selNext, afterSetErr, srAllW, nextC, roSets] <;> (try omega) <;> (try (cases hk : s.ehTok <;> cases hc0 : s.closed <;> simp_all [b2n_true, b2n_false] <;> omega)) <;> (try grind)
   | clBody _ i hi =>
     clear h4
     have l0 := le_tot srW _ _ _ hi
     have l1 := le_tot lgW _ _ _ hi
     have l2 := le_tot clAllW _ _ _ hi
     have l3 := le_tot clPreW _ _ _ hi
-    (try simp only [St.setDone, St.setBg, ↓reduceIte, Bool.false_eq_true, Bool.and_false, Bool.and_true, Bool.false_and, Bool.true_and]) <;> (repeat' split) <;> simp_all [tot_set_eq _ _ _ _ _ hi, tot_ackWs_srw', tot_ackWs_lgw, tot_ackWs_clall, tot_ackWs_clpre, b2n_true, b2n_false, clearW_idle, clearW_exited, clearW_parked, clearW_eq_exited, clearW_eq_parked, srW, lgW, clAllW, clPreW, St.bg, onOk, onErr, selNext, afterSetErr, srAllW, nextC] <;> (try omega) <;> (try grind)
+    (try simp only [St.setDone, St.setBg, ↓reduceIte, Bool.false_eq_true, Bool.and_false, Bool.and_true, Bool.false_and, Bool.true_and]) <;> (repeat' split) <;> simp_all [tot_set_eq _ _ _ _ _ hi, tot_ackWs_srw', tot_ackWs_lgw, tot_ackWs_clall, tot_ackWs_clpre, b2n_true, b2n_false, clearW_idle, clearW_exited, clearW_parked, clearW_eq_exited, clearW_eq_parked, srW, lgW, clAllW, clPreW, St.bg, onOk, onErr, selNext, afterSetErr, srAllW, nextC, roSets] <;> (try omega) <;> (try (cases hk : s.ehTok <;> cases hc0 : s.closed <;> simp_all [b2n_true, b2n_false] <;> omega)) <;> (try grind)
   | clAcq _ i hi ht =>
     clear h4
     have l0 := le_tot srW _ _ _ hi
     have l1 := le_tot lgW _ _ _ hi
     have l2 := le_tot clAllW _ _ _ hi
     have l3 := le_tot clPreW _ _ _ hi
-    (try simp only [St.setDone, St.setBg, ↓reduceIte, Bool.false_eq_true, Bool.and_false, Bool.and_true, Bool.false_and, Bool.true_and]) <;> (repeat' split) <;> simp_all [tot_set_eq _ _ _ _ _ hi, tot_ackWs_srw', tot_ackWs_lgw, tot_ackWs_clall, tot_ackWs_clpre, b2n_true, b2n_false, clearW_idle, clearW_exited, clearW_parked, clearW_eq_exited, clearW_eq_parked, srW, lgW, clAllW, clPreW, St.bg, onOk, onErr, selNext, afterSetErr, srAllW, nextC] <;> (try omega) <;> (try grind)
+    (try simp only [St.setDone, St.setBg, ↓reduceIte, Bool.false_eq_true, Bool.and_false, Bool.and_true, Bool.false_and, Bool.true_and]) <;> (repeat' split) <;> simp_all [tot_set_eq _ _ _ _ _ hi, tot_ackWs_srw', tot_ackWs_lgw, tot_ackWs_clall, tot_ackWs_clpre, b2n_true, b2n_false, clearW_idle, clearW_exited, clearW_parked, clearW_eq_exited, clearW_eq_parked, srW, lgW, clAllW, clPreW, St.bg, onOk, onErr, selNext, afterSetErr, srAllW, nextC, roSets] <;> (try omega) <;> (try (cases hk : s.ehTok <;> cases hc0 : s.closed <;> simp_all [b2n_true, b2n_false] <;> omega)) <;> (try grind)
   | clWait _ i hi hm ht =>
     clear h4
     have l0 := le_tot srW _ _ _ hi
     have l1 := le_tot lgW _ _ _ hi
     have l2 := le_tot clAllW _ _ _ hi
     have l3 := le_tot clPreW _ _ _ hi
-    (try simp only [St.setDone, St.setBg, ↓reduceIte, Bool.false_eq_true, Bool.and_false, Bool.and_true, Bool.false_and, Bool.true_and]) <;> (repeat' split) <;> simp_all [tot_set_eq _ _ _ _ _ hi, tot_ackWs_srw', tot_ackWs_lgw, tot_ackWs_clall, tot_ackWs_clpre, b2n_true, b2n_false, clearW_idle, clearW_exited, clearW_parked, clearW_eq_exited, clearW_eq_parked, srW, lgW, clAllW, clPreW, St.bg, onOk, onErr, selNext, afterSetErr, srAllW, nextC] <;> (try omega) <;> (try grind)
+    (try simp only [St.setDone, St.setBg, ↓reduceIte, Bool.false_eq_true, Bool.and_false, Bool.and_true, Bool.false_and, Bool.true_and]) <;> (repeat' split) <;> simp_all [tot_set_eq _ _ _ _ _ hi, tot_ackWs_srw', tot_ackWs_lgw, tot_ackWs_clall, tot_ackWs_clpre, b2n_true, b2n_false, clearW_idle, clearW_exited, clearW_parked, clearW_eq_exited, clearW_eq_parked, srW, lgW, clAllW, clPreW, St.bg, onOk, onErr, selNext, afterSetErr, srAllW, nextC, roSets] <;> (try omega) <;> (try (cases hk : s.ehTok <;> cases hc0 : s.closed <;> simp_all [b2n_true, b2n_false] <;> omega)) <;> (try grind)
   | ehAcquire _ he ht =>
     clear h4
-    (try simp only [St.setDone, St.setBg, ↓reduceIte, Bool.false_eq_true, Bool.and_false, Bool.and_true, Bool.false_and, Bool.true_and]) <;> (repeat' split) <;> simp_all [tot_ackWs_srw', tot_ackWs_lgw, tot_ackWs_clall, tot_ackWs_clpre, b2n_true, b2n_false, clearW_idle, clearW_exited, clearW_parked, clearW_eq_exited, clearW_eq_parked, srW, lgW, clAllW, clPreW, St.bg, onOk, onErr, selNext, afterSetErr, srAllW, nextC] <;> (try omega) <;> (try grind)
+    (try simp only [St.setDone, St.setBg, ↓reduceIte, Bool.false_eq_true, Bool.and_false, Bool.and_true, Bool.false_and, Bool.true_and]) <;> (repeat' split) <;> simp_all [tot_ackWs_srw', tot_ackWs_lgw, tot_ackWs_clall, tot_ackWs_clpre, b2n_true, b2n_false, clearW_idle, clearW_exited, clearW_parked, clearW_eq_exited, clearW_eq_parked, srW, lgW, clAllW, clPreW, St.bg, onOk, onErr, selNext, afterSetErr, srAllW, nextC, roSets] <;> (try omega) <;> (try (cases hk : s.ehTok <;> cases hc0 : s.closed <;> simp_all [b2n_true, b2n_false] <;> omega)) <;> (try grind)
   | ehClose _ he hc =>
     clear h4
     simp only [hm, closes_asCoded] at he
-    rcases he with he | he | he <;> (try simp only [St.setDone, St.setBg, ↓reduceIte, Bool.false_eq_true, Bool.and_false, Bool.and_true, Bool.false_and, Bool.true_and]) <;> (repeat' split) <;> simp_all [tot_ackWs_srw', tot_ackWs_lgw, tot_ackWs_clall, tot_ackWs_clpre, b2n_true, b2n_false, clearW_idle, clearW_exited, clearW_parked, clearW_eq_exited, clearW_eq_parked, srW, lgW, clAllW, clPreW, St.bg, onOk, onErr, selNext, afterSetErr, srAllW, nextC] <;> (try omega) <;> (try grind)
+    rcases he with he | he | he <;> (try simp only [St.setDone, St.setBg, ↓reduceIte, Bool.false_eq_true, Bool.and_false, Bool.and_true, Bool.false_and, Bool.true_and]) <;> (repeat' split) <;> simp_all [tot_ackWs_srw', tot_ackWs_lgw, tot_ackWs_clall, tot_ackWs_clpre, b2n_true, b2n_false, clearW_idle, clearW_exited, clearW_parked, clearW_eq_exited, clearW_eq_parked, srW, lgW, clAllW, clPreW, St.bg, onOk, onErr, selNext, afterSetErr, srAllW, nextC, roSets] <;> (try omega) <;> (try (cases hk : s.ehTok <;> cases hc0 : s.closed <;> simp_all [b2n_true, b2n_false] <;> omega)) <;> (try grind)
   | ehTake _ he ht =>
     clear h4
-    (try simp only [St.setDone, St.setBg, ↓reduceIte, Bool.false_eq_true, Bool.and_false, Bool.and_true, Bool.false_and, Bool.true_and]) <;> (repeat' split) <;> simp_all [tot_ackWs_srw', tot_ackWs_lgw, tot_ackWs_clall, tot_ackWs_clpre, b2n_true, b2n_false, clearW_idle, clearW_exited, clearW_parked, clearW_eq_exited, clearW_eq_parked, srW, lgW, clAllW, clPreW, St.bg, onOk, onErr, selNext, afterSetErr, srAllW, nextC] <;> (try omega) <;> (try grind)
+    (try simp only [St.setDone, St.setBg, ↓reduceIte, Bool.false_eq_true, Bool.and_false, Bool.and_true, Bool.false_and, Bool.true_and]) <;> (repeat' split) <;> simp_all [tot_ackWs_srw', tot_ackWs_lgw, tot_ackWs_clall, tot_ackWs_clpre, b2n_true, b2n_false, clearW_idle, clearW_exited, clearW_parked, clearW_eq_exited, clearW_eq_parked, srW, lgW, clAllW, clPreW, St.bg, onOk, onErr, selNext, afterSetErr, srAllW, nextC, roSets] <;> (try omega) <;> (try (cases hk : s.ehTok <;> cases hc0 : s.closed <;> simp_all [b2n_true, b2n_false] <;> omega)) <;> (try grind)
   | bgExitIdle _ b hb hc =>
     clear h4
-    cases b <;> (try simp only [St.setDone, St.setBg, ↓reduceIte, Bool.false_eq_true, Bool.and_false, Bool.and_true, Bool.false_and, Bool.true_and]) <;> (repeat' split) <;> simp_all [tot_ackWs_srw', tot_ackWs_lgw, tot_ackWs_clall, tot_ackWs_clpre, b2n_true, b2n_false, clearW_idle, clearW_exited, clearW_parked, clearW_eq_exited, clearW_eq_parked, srW, lgW, clAllW, clPreW, St.bg, onOk, onErr, selNext, afterSetErr, srAllW, nextC] <;> (try omega) <;> (try grind)
+    cases b <;> (try simp only [St.setDone, St.setBg, ↓reduceIte, Bool.false_eq_true, Bool.and_false, Bool.and_true, Bool.false_and, Bool.true_and]) <;> (repeat' split) <;> simp_all [tot_ackWs_srw', tot_ackWs_lgw, tot_ackWs_clall, tot_ackWs_clpre, b2n_true, b2n_false, clearW_idle, clearW_exited, clearW_parked, clearW_eq_exited, clearW_eq_parked, srW, lgW, clAllW, clPreW, St.bg, onOk, onErr, selNext, afterSetErr, srAllW, nextC, roSets] <;> (try omega) <;> (try (cases hk : s.ehTok <;> cases hc0 : s.closed <;> simp_all [b2n_true, b2n_false] <;> omega)) <;> (try grind)
   | bgExitParked _ hb hc =>
     clear h4
-    (try simp only [St.setDone, St.setBg, ↓reduceIte, Bool.false_eq_true, Bool.and_false, Bool.and_true, Bool.false_and, Bool.true_and]) <;> (repeat' split) <;> simp_all [tot_ackWs_srw', tot_ackWs_lgw, tot_ackWs_clall, tot_ackWs_clpre, b2n_true, b2n_false, clearW_idle, clearW_exited, clearW_parked, clearW_eq_exited, clearW_eq_parked, srW, lgW, clAllW, clPreW, St.bg, onOk, onErr, selNext, afterSetErr, srAllW, nextC] <;> (try omega) <;> (try grind)
+    (try simp only [St.setDone, St.setBg, ↓reduceIte, Bool.false_eq_true, Bool.and_false, Bool.and_true, Bool.false_and, Bool.true_and]) <;> (repeat' split) <;> simp_all [tot_ackWs_srw', tot_ackWs_lgw, tot_ackWs_clall, tot_ackWs_clpre, b2n_true, b2n_false, clearW_idle, clearW_exited, clearW_parked, clearW_eq_exited, clearW_eq_parked, srW, lgW, clAllW, clPreW, St.bg, onOk, onErr, selNext, afterSetErr, srAllW, nextC, roSets] <;> (try omega) <;> (try (cases hk : s.ehTok <;> cases hc0 : s.closed <;> simp_all [b2n_true, b2n_false] <;> omega)) <;> (try grind)
   | bgWorkCorrupt _ b w hb hk =>
     clear h4
-    cases b <;> (try simp only [St.setDone, St.setBg, ↓reduceIte, Bool.false_eq_true, Bool.and_false, Bool.and_true, Bool.false_and, Bool.true_and]) <;> (repeat' split) <;> simp_all [tot_ackWs_srw', tot_ackWs_lgw, tot_ackWs_clall, tot_ackWs_clpre, b2n_true, b2n_false, clearW_idle, clearW_exited, clearW_parked, clearW_eq_exited, clearW_eq_parked, srW, lgW, clAllW, clPreW, St.bg, onOk, onErr, selNext, afterSetErr, srAllW, nextC] <;> (try omega) <;> (try grind)
+    cases b <;> (try simp only [St.setDone, St.setBg, ↓reduceIte, Bool.false_eq_true, Bool.and_false, Bool.and_true, Bool.false_and, Bool.true_and]) <;> (repeat' split) <;> simp_all [tot_ackWs_srw', tot_ackWs_lgw, tot_ackWs_clall, tot_ackWs_clpre, b2n_true, b2n_false, clearW_idle, clearW_exited, clearW_parked, clearW_eq_exited, clearW_eq_parked, srW, lgW, clAllW, clPreW, St.bg, onOk, onErr, selNext, afterSetErr, srAllW, nextC, roSets] <;> (try omega) <;> (try (cases hk : s.ehTok <;> cases hc0 : s.closed <;> simp_all [b2n_true, b2n_false] <;> omega)) <;> (try grind)
   | bgCommitCorrupt _ b w hb hk =>
     clear h4
-    cases b <;> (try simp only [St.setDone, St.setBg, ↓reduceIte, Bool.false_eq_true, Bool.and_false, Bool.and_true, Bool.false_and, Bool.true_and]) <;> (repeat' split) <;> simp_all [tot_ackWs_srw', tot_ackWs_lgw, tot_ackWs_clall, tot_ackWs_clpre, b2n_true, b2n_false, clearW_idle, clearW_exited, clearW_parked, clearW_eq_exited, clearW_eq_parked, srW, lgW, clAllW, clPreW, St.bg, onOk, onErr, selNext, afterSetErr, srAllW, nextC] <;> (try omega) <;> (try grind)
+    cases b <;> (try simp only [St.setDone, St.setBg, ↓reduceIte, Bool.false_eq_true, Bool.and_false, Bool.and_true, Bool.false_and, Bool.true_and]) <;> (repeat' split) <;> simp_all [tot_ackWs_srw', tot_ackWs_lgw, tot_ackWs_clall, tot_ackWs_clpre, b2n_true, b2n_false, clearW_idle, clearW_exited, clearW_parked, clearW_eq_exited, clearW_eq_parked, srW, lgW, clAllW, clPreW, St.bg, onOk, onErr, selNext, afterSetErr, srAllW, nextC, roSets] <;> (try omega) <;> (try (cases hk : s.ehTok <;> cases hc0 : s.closed <;> simp_all [b2n_true, b2n_false] <;> omega)) <;> (try grind)
   | bgSetErrCorrupt _ b w c hb he =>
     clear h4
     simp only [hm, recvs_asCoded] at he
-    rcases he with he | he <;> cases b <;> cases c <;> (try simp only [St.setDone, St.setBg, ↓reduceIte, Bool.false_eq_true, Bool.and_false, Bool.and_true, Bool.false_and, Bool.true_and]) <;> (repeat' split) <;> simp_all [tot_ackWs_srw', tot_ackWs_lgw, tot_ackWs_clall, tot_ackWs_clpre, b2n_true, b2n_false, clearW_idle, clearW_exited, clearW_parked, clearW_eq_exited, clearW_eq_parked, srW, lgW, clAllW, clPreW, St.bg, onOk, onErr, selNext, afterSetErr, srAllW, nextC] <;> (try omega) <;> (try grind)
+    rcases he with he | he <;> cases b <;> cases c <;> (try simp only [St.setDone, St.setBg, ↓reduceIte, Bool.false_eq_true, Bool.and_false, Bool.and_true, Bool.false_and, Bool.true_and]) <;> (repeat' split) <;> simp_all [tot_ackWs_srw', tot_ackWs_lgw, tot_ackWs_clall, tot_ackWs_clpre, b2n_true, b2n_false, clearW_idle, clearW_exited, clearW_parked, clearW_eq_exited, clearW_eq_parked, srW, lgW, clAllW, clPreW, St.bg, onOk, onErr, selNext, afterSetErr, srAllW, nextC, roSets] <;> (try omega) <;> (try (cases hk : s.ehTok <;> cases hc0 : s.closed <;> simp_all [b2n_true, b2n_false] <;> omega)) <;> (try grind)
   | bgWorkOk _ b w hb =>
     clear h4
-    cases b <;> (try simp only [St.setDone, St.setBg, ↓reduceIte, Bool.false_eq_true, Bool.and_false, Bool.and_true, Bool.false_and, Bool.true_and]) <;> (repeat' split) <;> simp_all [tot_ackWs_srw', tot_ackWs_lgw, tot_ackWs_clall, tot_ackWs_clpre, b2n_true, b2n_false, clearW_idle, clearW_exited, clearW_parked, clearW_eq_exited, clearW_eq_parked, srW, lgW, clAllW, clPreW, St.bg, onOk, onErr, selNext, afterSetErr, srAllW, nextC] <;> (try omega) <;> (try grind)
+    cases b <;> (try simp only [St.setDone, St.setBg, ↓reduceIte, Bool.false_eq_true, Bool.and_false, Bool.and_true, Bool.false_and, Bool.true_and]) <;> (repeat' split) <;> simp_all [tot_ackWs_srw', tot_ackWs_lgw, tot_ackWs_clall, tot_ackWs_clpre, b2n_true, b2n_false, clearW_idle, clearW_exited, clearW_parked, clearW_eq_exited, clearW_eq_parked, srW, lgW, clAllW, clPreW, St.bg, onOk, onErr, selNext, afterSetErr, srAllW, nextC, roSets] <;> (try omega) <;> (try (cases hk : s.ehTok <;> cases hc0 : s.closed <;> simp_all [b2n_true, b2n_false] <;> omega)) <;> (try grind)
   | bgWorkFail _ b w hb =>
     clear h4
-    cases b <;> (try simp only [St.setDone, St.setBg, ↓reduceIte, Bool.false_eq_true, Bool.and_false, Bool.and_true, Bool.false_and, Bool.true_and]) <;> (repeat' split) <;> simp_all [tot_ackWs_srw', tot_ackWs_lgw, tot_ackWs_clall, tot_ackWs_clpre, b2n_true, b2n_false, clearW_idle, clearW_exited, clearW_parked, clearW_eq_exited, clearW_eq_parked, srW, lgW, clAllW, clPreW, St.bg, onOk, onErr, selNext, afterSetErr, srAllW, nextC] <;> (try omega) <;> (try grind)
+    cases b <;> (try simp only [St.setDone, St.setBg, ↓reduceIte, Bool.false_eq_true, Bool.and_false, Bool.and_true, Bool.false_and, Bool.true_and]) <;> (repeat' split) <;> simp_all [tot_ackWs_srw', tot_ackWs_lgw, tot_ackWs_clall, tot_ackWs_clpre, b2n_true, b2n_false, clearW_idle, clearW_exited, clearW_parked, clearW_eq_exited, clearW_eq_parked, srW, lgW, clAllW, clPreW, St.bg, onOk, onErr, selNext, afterSetErr, srAllW, nextC, roSets] <;> (try omega) <;> (try (cases hk : s.ehTok <;> cases hc0 : s.closed <;> simp_all [b2n_true, b2n_false] <;> omega)) <;> (try grind)
   | bgCommitOk _ b w hb =>
     clear h4
-    cases b <;> (try simp only [St.setDone, St.setBg, ↓reduceIte, Bool.false_eq_true, Bool.and_false, Bool.and_true, Bool.false_and, Bool.true_and]) <;> (repeat' split) <;> simp_all [tot_ackWs_srw', tot_ackWs_lgw, tot_ackWs_clall, tot_ackWs_clpre, b2n_true, b2n_false, clearW_idle, clearW_exited, clearW_parked, clearW_eq_exited, clearW_eq_parked, srW, lgW, clAllW, clPreW, St.bg, onOk, onErr, selNext, afterSetErr, srAllW, nextC] <;> (try omega) <;> (try grind)
+    cases b <;> (try simp only [St.setDone, St.setBg, ↓reduceIte, Bool.false_eq_true, Bool.and_false, Bool.and_true, Bool.false_and, Bool.true_and]) <;> (repeat' split) <;> simp_all [tot_ackWs_srw', tot_ackWs_lgw, tot_ackWs_clall, tot_ackWs_clpre, b2n_true, b2n_false, clearW_idle, clearW_exited, clearW_parked, clearW_eq_exited, clearW_eq_parked, srW, lgW, clAllW, clPreW, St.bg, onOk, onErr, selNext, afterSetErr, srAllW, nextC, roSets] <;> (try omega) <;> (try (cases hk : s.ehTok <;> cases hc0 : s.closed <;> simp_all [b2n_true, b2n_false] <;> omega)) <;> (try grind)
   | bgCommitFail _ b w hb =>
     clear h4
-    cases b <;> (try simp only [St.setDone, St.setBg, ↓reduceIte, Bool.false_eq_true, Bool.and_false, Bool.and_true, Bool.false_and, Bool.true_and]) <;> (repeat' split) <;> simp_all [tot_ackWs_srw', tot_ackWs_lgw, tot_ackWs_clall, tot_ackWs_clpre, b2n_true, b2n_false, clearW_idle, clearW_exited, clearW_parked, clearW_eq_exited, clearW_eq_parked, srW, lgW, clAllW, clPreW, St.bg, onOk, onErr, selNext, afterSetErr, srAllW, nextC] <;> (try omega) <;> (try grind)
+    cases b <;> (try simp only [St.setDone, St.setBg, ↓reduceIte, Bool.false_eq_true, Bool.and_false, Bool.and_true, Bool.false_and, Bool.true_and]) <;> (repeat' split) <;> simp_all [tot_ackWs_srw', tot_ackWs_lgw, tot_ackWs_clall, tot_ackWs_clpre, b2n_true, b2n_false, clearW_idle, clearW_exited, clearW_parked, clearW_eq_exited, clearW_eq_parked, srW, lgW, clAllW, clPreW, St.bg, onOk, onErr, selNext, afterSetErr, srAllW, nextC, roSets] <;> (try omega) <;> (try (cases hk : s.ehTok <;> cases hc0 : s.closed <;> simp_all [b2n_true, b2n_false] <;> omega)) <;> (try grind)
   | bgSetErr _ b w ok c hb he =>
     clear h4
     simp only [hm, recvs_asCoded] at he
-    rcases he with he | he <;> cases b <;> cases ok <;> cases c <;> (try simp only [St.setDone, St.setBg, ↓reduceIte, Bool.false_eq_true, Bool.and_false, Bool.and_true, Bool.false_and, Bool.true_and]) <;> (repeat' split) <;> simp_all [tot_ackWs_srw', tot_ackWs_lgw, tot_ackWs_clall, tot_ackWs_clpre, b2n_true, b2n_false, clearW_idle, clearW_exited, clearW_parked, clearW_eq_exited, clearW_eq_parked, srW, lgW, clAllW, clPreW, St.bg, onOk, onErr, selNext, afterSetErr, srAllW, nextC] <;> (try omega) <;> (try grind)
+    rcases he with he | he <;> cases b <;> cases ok <;> cases c <;> (try simp only [St.setDone, St.setBg, ↓reduceIte, Bool.false_eq_true, Bool.and_false, Bool.and_true, Bool.false_and, Bool.true_and]) <;> (repeat' split) <;> simp_all [tot_ackWs_srw', tot_ackWs_lgw, tot_ackWs_clall, tot_ackWs_clpre, b2n_true, b2n_false, clearW_idle, clearW_exited, clearW_parked, clearW_eq_exited, clearW_eq_parked, srW, lgW, clAllW, clPreW, St.bg, onOk, onErr, selNext, afterSetErr, srAllW, nextC, roSets] <;> (try omega) <;> (try (cases hk : s.ehTok <;> cases hc0 : s.closed <;> simp_all [b2n_true, b2n_false] <;> omega)) <;> (try grind)
   | bgSetErrPer _ b w c hb he =>
     clear h4
-    cases b <;> cases c <;> (try simp only [St.setDone, St.setBg, ↓reduceIte, Bool.false_eq_true, Bool.and_false, Bool.and_true, Bool.false_and, Bool.true_and]) <;> (repeat' split) <;> simp_all [tot_ackWs_srw', tot_ackWs_lgw, tot_ackWs_clall, tot_ackWs_clpre, b2n_true, b2n_false, clearW_idle, clearW_exited, clearW_parked, clearW_eq_exited, clearW_eq_parked, srW, lgW, clAllW, clPreW, St.bg, onOk, onErr, selNext, afterSetErr, srAllW, nextC] <;> (try omega) <;> (try grind)
+    cases b <;> cases c <;> (try simp only [St.setDone, St.setBg, ↓reduceIte, Bool.false_eq_true, Bool.and_false, Bool.and_true, Bool.false_and, Bool.true_and]) <;> (repeat' split) <;> simp_all [tot_ackWs_srw', tot_ackWs_lgw, tot_ackWs_clall, tot_ackWs_clpre, b2n_true, b2n_false, clearW_idle, clearW_exited, clearW_parked, clearW_eq_exited, clearW_eq_parked, srW, lgW, clAllW, clPreW, St.bg, onOk, onErr, selNext, afterSetErr, srAllW, nextC, roSets] <;> (try omega) <;> (try (cases hk : s.ehTok <;> cases hc0 : s.closed <;> simp_all [b2n_true, b2n_false] <;> omega)) <;> (try grind)
   | bgBackoff _ b w c hb =>
     clear h4
-    cases b <;> cases c <;> (try simp only [St.setDone, St.setBg, ↓reduceIte, Bool.false_eq_true, Bool.and_false, Bool.and_true, Bool.false_and, Bool.true_and]) <;> (repeat' split) <;> simp_all [tot_ackWs_srw', tot_ackWs_lgw, tot_ackWs_clall, tot_ackWs_clpre, b2n_true, b2n_false, clearW_idle, clearW_exited, clearW_parked, clearW_eq_exited, clearW_eq_parked, srW, lgW, clAllW, clPreW, St.bg, onOk, onErr, selNext, afterSetErr, srAllW, nextC] <;> (try omega) <;> (try grind)
+    cases b <;> cases c <;> (try simp only [St.setDone, St.setBg, ↓reduceIte, Bool.false_eq_true, Bool.and_false, Bool.and_true, Bool.false_and, Bool.true_and]) <;> (repeat' split) <;> simp_all [tot_ackWs_srw', tot_ackWs_lgw, tot_ackWs_clall, tot_ackWs_clpre, b2n_true, b2n_false, clearW_idle, clearW_exited, clearW_parked, clearW_eq_exited, clearW_eq_parked, srW, lgW, clAllW, clPreW, St.bg, onOk, onErr, selNext, afterSetErr, srAllW, nextC, roSets] <;> (try omega) <;> (try (cases hk : s.ehTok <;> cases hc0 : s.closed <;> simp_all [b2n_true, b2n_false] <;> omega)) <;> (try grind)
   | bgLockClk _ b w hb hl =>
     clear h4
-    cases b <;> (try simp only [St.setDone, St.setBg, ↓reduceIte, Bool.false_eq_true, Bool.and_false, Bool.and_true, Bool.false_and, Bool.true_and]) <;> (repeat' split) <;> simp_all [tot_ackWs_srw', tot_ackWs_lgw, tot_ackWs_clall, tot_ackWs_clpre, b2n_true, b2n_false, clearW_idle, clearW_exited, clearW_parked, clearW_eq_exited, clearW_eq_parked, srW, lgW, clAllW, clPreW, St.bg, onOk, onErr, selNext, afterSetErr, srAllW, nextC] <;> (try omega) <;> (try grind)
+    cases b <;> (try simp only [St.setDone, St.setBg, ↓reduceIte, Bool.false_eq_true, Bool.and_false, Bool.and_true, Bool.false_and, Bool.true_and]) <;> (repeat' split) <;> simp_all [tot_ackWs_srw', tot_ackWs_lgw, tot_ackWs_clall, tot_ackWs_clpre, b2n_true, b2n_false, clearW_idle, clearW_exited, clearW_parked, clearW_eq_exited, clearW_eq_parked, srW, lgW, clAllW, clPreW, St.bg, onOk, onErr, selNext, afterSetErr, srAllW, nextC, roSets] <;> (try omega) <;> (try (cases hk : s.ehTok <;> cases hc0 : s.closed <;> simp_all [b2n_true, b2n_false] <;> omega)) <;> (try grind)
   | bgAck _ b w hb =>
     clear h4
     have hp := afterCmd_parked cfg s b
-    rcases afterCmd_cases cfg s b with hac | hac <;> rw [hac] at hp ⊢ <;> cases b <;> (try simp only [St.setDone, St.setBg]) <;> simp_all [tot_ackWs_srw', tot_ackWs_lgw, tot_ackWs_clall, tot_ackWs_clpre, b2n_true, b2n_false, clearW_idle, clearW_exited, clearW_parked, clearW_eq_exited, clearW_eq_parked, srW, lgW, clAllW, clPreW, St.bg, onOk, onErr, selNext, afterSetErr, srAllW, nextC] <;> (try omega) <;> (try grind)
+    rcases afterCmd_cases cfg s b with hac | hac <;> rw [hac] at hp ⊢ <;> cases b <;> (try simp only [St.setDone, St.setBg]) <;> simp_all [tot_ackWs_srw', tot_ackWs_lgw, tot_ackWs_clall, tot_ackWs_clpre, b2n_true, b2n_false, clearW_idle, clearW_exited, clearW_parked, clearW_eq_exited, clearW_eq_parked, srW, lgW, clAllW, clPreW, St.bg, onOk, onErr, selNext, afterSetErr, srAllW, nextC, roSets] <;> (try omega) <;> (try (cases hk : s.ehTok <;> cases hc0 : s.closed <;> simp_all [b2n_true, b2n_false] <;> omega)) <;> (try grind)
   | bgExit _ b w ph hb hx =>
     clear h4
-    cases b <;> cases ph <;> (try simp only [St.setDone, St.setBg, ↓reduceIte, Bool.false_eq_true, Bool.and_false, Bool.and_true, Bool.false_and, Bool.true_and]) <;> (repeat' split) <;> simp_all [tot_ackWs_srw', tot_ackWs_lgw, tot_ackWs_clall, tot_ackWs_clpre, b2n_true, b2n_false, clearW_idle, clearW_exited, clearW_parked, clearW_eq_exited, clearW_eq_parked, srW, lgW, clAllW, clPreW, St.bg, onOk, onErr, selNext, afterSetErr, srAllW, nextC] <;> (try omega) <;> (try (rcases hx with hx | hx <;> simp_all))
+    cases b <;> cases ph <;> (try simp only [St.setDone, St.setBg, ↓reduceIte, Bool.false_eq_true, Bool.and_false, Bool.and_true, Bool.false_and, Bool.true_and]) <;> (repeat' split) <;> simp_all [tot_ackWs_srw', tot_ackWs_lgw, tot_ackWs_clall, tot_ackWs_clpre, b2n_true, b2n_false, clearW_idle, clearW_exited, clearW_parked, clearW_eq_exited, clearW_eq_parked, srW, lgW, clAllW, clPreW, St.bg, onOk, onErr, selNext, afterSetErr, srAllW, nextC, roSets] <;> (try omega) <;> (try (rcases hx with hx | hx <;> simp_all))
 
 end GoLevel.Locks
